@@ -673,6 +673,12 @@ let rec forallb f = function
 | [] -> true
 | a :: l0 -> (&&) (f a) (forallb f l0)
 
+(** val filter : ('a1 -> bool) -> 'a1 list -> 'a1 list **)
+
+let rec filter f = function
+| [] -> []
+| x :: l0 -> if f x then x :: (filter f l0) else filter f l0
+
 (** val firstn : nat -> 'a1 list -> 'a1 list **)
 
 let rec firstn n0 l =
@@ -890,6 +896,11 @@ let strip_by p l =
 
 let rstrip_nl l =
   rstrip_by (fun c -> Z.eqb c (Zpos (XO (XI (XO XH))))) l
+
+(** val rstrip_py : z list -> z list **)
+
+let rstrip_py l =
+  rstrip_by is_space_py l
 
 (** val strip_py : z list -> z list **)
 
@@ -2498,3 +2509,2218 @@ let doc_path src =
          XH))))))) :: []))))))
   then drop_last (S (S O)) src
   else src
+
+(** val basic_tokens : (z list * z) list **)
+
+let basic_tokens =
+  (((Zpos (XI (XO (XI (XO (XO (XO XH))))))) :: ((Zpos (XO (XI (XI (XI (XO (XO
+    XH))))))) :: ((Zpos (XO (XO (XI (XO (XO (XO XH))))))) :: []))), (Zpos (XO
+    (XO (XO (XO (XO (XO (XO XH))))))))) :: ((((Zpos (XO (XI (XI (XO (XO (XO
+    XH))))))) :: ((Zpos (XI (XI (XI (XI (XO (XO XH))))))) :: ((Zpos (XO (XI
+    (XO (XO (XI (XO XH))))))) :: []))), (Zpos (XI (XO (XO (XO (XO (XO (XO
+    XH))))))))) :: ((((Zpos (XO (XI (XI (XI (XO (XO XH))))))) :: ((Zpos (XI
+    (XO (XI (XO (XO (XO XH))))))) :: ((Zpos (XO (XO (XO (XI (XI (XO
+    XH))))))) :: ((Zpos (XO (XO (XI (XO (XI (XO XH))))))) :: [])))), (Zpos
+    (XO (XI (XO (XO (XO (XO (XO XH))))))))) :: ((((Zpos (XO (XO (XI (XO (XO
+    (XO XH))))))) :: ((Zpos (XI (XO (XO (XO (XO (XO XH))))))) :: ((Zpos (XO
+    (XO (XI (XO (XI (XO XH))))))) :: ((Zpos (XI (XO (XO (XO (XO (XO
+    XH))))))) :: [])))), (Zpos (XI (XI (XO (XO (XO (XO (XO
+    XH))))))))) :: ((((Zpos (XO (XO (XI (XO (XO (XO XH))))))) :: ((Zpos (XI
+    (XO (XO (XI (XO (XO XH))))))) :: ((Zpos (XI (XO (XI (XI (XO (XO
+    XH))))))) :: []))), (Zpos (XO (XO (XI (XO (XO (XO (XO
+    XH))))))))) :: ((((Zpos (XO (XI (XO (XO (XI (XO XH))))))) :: ((Zpos (XI
+    (XO (XI (XO (XO (XO XH))))))) :: ((Zpos (XI (XO (XO (XO (XO (XO
+    XH))))))) :: ((Zpos (XO (XO (XI (XO (XO (XO XH))))))) :: [])))), (Zpos
+    (XI (XO (XI (XO (XO (XO (XO XH))))))))) :: ((((Zpos (XI (XI (XI (XO (XO
+    (XO XH))))))) :: ((Zpos (XI (XI (XI (XI (XO (XO XH))))))) :: [])), (Zpos
+    (XI (XI (XI (XO (XO (XO (XO XH))))))))) :: ((((Zpos (XO (XI (XO (XO (XI
+    (XO XH))))))) :: ((Zpos (XI (XO (XI (XO (XI (XO XH))))))) :: ((Zpos (XO
+    (XI (XI (XI (XO (XO XH))))))) :: []))), (Zpos (XO (XO (XO (XI (XO (XO (XO
+    XH))))))))) :: ((((Zpos (XI (XO (XO (XI (XO (XO XH))))))) :: ((Zpos (XO
+    (XI (XI (XO (XO (XO XH))))))) :: [])), (Zpos (XI (XO (XO (XI (XO (XO (XO
+    XH))))))))) :: ((((Zpos (XO (XI (XO (XO (XI (XO XH))))))) :: ((Zpos (XI
+    (XO (XI (XO (XO (XO XH))))))) :: ((Zpos (XI (XI (XO (XO (XI (XO
+    XH))))))) :: ((Zpos (XO (XO (XI (XO (XI (XO XH))))))) :: ((Zpos (XI (XI
+    (XI (XI (XO (XO XH))))))) :: ((Zpos (XO (XI (XO (XO (XI (XO
+    XH))))))) :: ((Zpos (XI (XO (XI (XO (XO (XO XH))))))) :: []))))))), (Zpos
+    (XO (XI (XO (XI (XO (XO (XO XH))))))))) :: ((((Zpos (XO (XI (XO (XO (XI
+    (XO XH))))))) :: ((Zpos (XI (XO (XI (XO (XO (XO XH))))))) :: ((Zpos (XO
+    (XO (XI (XO (XI (XO XH))))))) :: ((Zpos (XI (XO (XI (XO (XI (XO
+    XH))))))) :: ((Zpos (XO (XI (XO (XO (XI (XO XH))))))) :: ((Zpos (XO (XI
+    (XI (XI (XO (XO XH))))))) :: [])))))), (Zpos (XI (XI (XO (XI (XO (XO (XO
+    XH))))))))) :: ((((Zpos (XO (XI (XO (XO (XI (XO XH))))))) :: ((Zpos (XI
+    (XO (XI (XO (XO (XO XH))))))) :: ((Zpos (XI (XO (XI (XI (XO (XO
+    XH))))))) :: []))), (Zpos (XO (XO (XI (XI (XO (XO (XO
+    XH))))))))) :: ((((Zpos (XI (XI (XI (XO (XO XH)))))) :: []), (Zpos (XI
+    (XO (XI (XI (XO (XO (XO XH))))))))) :: ((((Zpos (XI (XI (XO (XO (XI (XO
+    XH))))))) :: ((Zpos (XO (XO (XI (XO (XI (XO XH))))))) :: ((Zpos (XI (XI
+    (XI (XI (XO (XO XH))))))) :: ((Zpos (XO (XO (XO (XO (XI (XO
+    XH))))))) :: [])))), (Zpos (XO (XI (XI (XI (XO (XO (XO
+    XH))))))))) :: ((((Zpos (XI (XO (XI (XO (XO (XO XH))))))) :: ((Zpos (XO
+    (XO (XI (XI (XO (XO XH))))))) :: ((Zpos (XI (XI (XO (XO (XI (XO
+    XH))))))) :: ((Zpos (XI (XO (XI (XO (XO (XO XH))))))) :: [])))), (Zpos
+    (XI (XI (XI (XI (XO (XO (XO XH))))))))) :: ((((Zpos (XO (XO (XI (XO (XI
+    (XO XH))))))) :: ((Zpos (XO (XI (XO (XO (XI (XO XH))))))) :: ((Zpos (XI
+    (XI (XI (XI (XO (XO XH))))))) :: ((Zpos (XO (XI (XI (XI (XO (XO
+    XH))))))) :: [])))), (Zpos (XO (XO (XO (XO (XI (XO (XO
+    XH))))))))) :: ((((Zpos (XO (XO (XI (XO (XI (XO XH))))))) :: ((Zpos (XO
+    (XI (XO (XO (XI (XO XH))))))) :: ((Zpos (XI (XI (XI (XI (XO (XO
+    XH))))))) :: ((Zpos (XO (XI (XI (XO (XO (XO XH))))))) :: ((Zpos (XO (XI
+    (XI (XO (XO (XO XH))))))) :: []))))), (Zpos (XI (XO (XO (XO (XI (XO (XO
+    XH))))))))) :: ((((Zpos (XO (XO (XI (XO (XO (XO XH))))))) :: ((Zpos (XI
+    (XO (XI (XO (XO (XO XH))))))) :: ((Zpos (XO (XI (XI (XO (XO (XO
+    XH))))))) :: ((Zpos (XI (XI (XO (XO (XI (XO XH))))))) :: ((Zpos (XO (XO
+    (XI (XO (XI (XO XH))))))) :: ((Zpos (XO (XI (XO (XO (XI (XO
+    XH))))))) :: [])))))), (Zpos (XO (XI (XO (XO (XI (XO (XO
+    XH))))))))) :: ((((Zpos (XO (XO (XI (XO (XO (XO XH))))))) :: ((Zpos (XI
+    (XO (XI (XO (XO (XO XH))))))) :: ((Zpos (XO (XI (XI (XO (XO (XO
+    XH))))))) :: ((Zpos (XI (XO (XO (XI (XO (XO XH))))))) :: ((Zpos (XO (XI
+    (XI (XI (XO (XO XH))))))) :: ((Zpos (XO (XO (XI (XO (XI (XO
+    XH))))))) :: [])))))), (Zpos (XI (XI (XO (XO (XI (XO (XO
+    XH))))))))) :: ((((Zpos (XO (XO (XI (XO (XO (XO XH))))))) :: ((Zpos (XI
+    (XO (XI (XO (XO (XO XH))))))) :: ((Zpos (XO (XI (XI (XO (XO (XO
+    XH))))))) :: ((Zpos (XI (XI (XO (XO (XI (XO XH))))))) :: ((Zpos (XO (XI
+    (XI (XI (XO (XO XH))))))) :: ((Zpos (XI (XI (XI (XO (XO (XO
+    XH))))))) :: [])))))), (Zpos (XO (XO (XI (XO (XI (XO (XO
+    XH))))))))) :: ((((Zpos (XI (XI (XI (XI (XO (XO XH))))))) :: ((Zpos (XO
+    (XI (XI (XI (XO (XO XH))))))) :: [])), (Zpos (XO (XI (XI (XO (XI (XO (XO
+    XH))))))))) :: ((((Zpos (XO (XO (XI (XO (XI (XO XH))))))) :: ((Zpos (XI
+    (XO (XI (XO (XI (XO XH))))))) :: ((Zpos (XO (XI (XI (XI (XO (XO
+    XH))))))) :: ((Zpos (XI (XO (XI (XO (XO (XO XH))))))) :: [])))), (Zpos
+    (XI (XI (XI (XO (XI (XO (XO XH))))))))) :: ((((Zpos (XI (XO (XI (XO (XO
+    (XO XH))))))) :: ((Zpos (XO (XI (XO (XO (XI (XO XH))))))) :: ((Zpos (XO
+    (XI (XO (XO (XI (XO XH))))))) :: ((Zpos (XI (XI (XI (XI (XO (XO
+    XH))))))) :: ((Zpos (XO (XI (XO (XO (XI (XO XH))))))) :: []))))), (Zpos
+    (XO (XO (XO (XI (XI (XO (XO XH))))))))) :: ((((Zpos (XO (XI (XO (XO (XI
+    (XO XH))))))) :: ((Zpos (XI (XO (XI (XO (XO (XO XH))))))) :: ((Zpos (XI
+    (XI (XO (XO (XI (XO XH))))))) :: ((Zpos (XI (XO (XI (XO (XI (XO
+    XH))))))) :: ((Zpos (XI (XO (XI (XI (XO (XO XH))))))) :: ((Zpos (XI (XO
+    (XI (XO (XO (XO XH))))))) :: [])))))), (Zpos (XI (XO (XO (XI (XI (XO (XO
+    XH))))))))) :: ((((Zpos (XI (XO (XO (XO (XO (XO XH))))))) :: ((Zpos (XI
+    (XO (XI (XO (XI (XO XH))))))) :: ((Zpos (XO (XO (XI (XO (XI (XO
+    XH))))))) :: ((Zpos (XI (XI (XI (XI (XO (XO XH))))))) :: [])))), (Zpos
+    (XO (XI (XO (XI (XI (XO (XO XH))))))))) :: ((((Zpos (XO (XO (XI (XO (XO
+    (XO XH))))))) :: ((Zpos (XI (XO (XI (XO (XO (XO XH))))))) :: ((Zpos (XO
+    (XO (XI (XI (XO (XO XH))))))) :: ((Zpos (XI (XO (XI (XO (XO (XO
+    XH))))))) :: ((Zpos (XO (XO (XI (XO (XI (XO XH))))))) :: ((Zpos (XI (XO
+    (XI (XO (XO (XO XH))))))) :: [])))))), (Zpos (XI (XI (XO (XI (XI (XO (XO
+    XH))))))))) :: ((((Zpos (XO (XO (XI (XI (XO (XO XH))))))) :: ((Zpos (XI
+    (XI (XI (XI (XO (XO XH))))))) :: ((Zpos (XI (XI (XO (XO (XO (XO
+    XH))))))) :: ((Zpos (XI (XO (XO (XO (XO (XO XH))))))) :: ((Zpos (XO (XO
+    (XI (XO (XI (XO XH))))))) :: ((Zpos (XI (XO (XI (XO (XO (XO
+    XH))))))) :: [])))))), (Zpos (XO (XO (XI (XI (XI (XO (XO
+    XH))))))))) :: ((((Zpos (XI (XI (XO (XO (XO (XO XH))))))) :: ((Zpos (XO
+    (XO (XI (XI (XO (XO XH))))))) :: ((Zpos (XI (XI (XO (XO (XI (XO
+    XH))))))) :: []))), (Zpos (XI (XO (XI (XI (XI (XO (XO
+    XH))))))))) :: ((((Zpos (XI (XI (XO (XO (XO (XO XH))))))) :: ((Zpos (XI
+    (XI (XI (XI (XO (XO XH))))))) :: ((Zpos (XO (XI (XI (XI (XO (XO
+    XH))))))) :: ((Zpos (XI (XI (XO (XO (XI (XO XH))))))) :: ((Zpos (XI (XI
+    (XI (XI (XO (XO XH))))))) :: ((Zpos (XO (XO (XI (XI (XO (XO
+    XH))))))) :: ((Zpos (XI (XO (XI (XO (XO (XO XH))))))) :: []))))))), (Zpos
+    (XO (XI (XI (XI (XI (XO (XO XH))))))))) :: ((((Zpos (XO (XO (XO (XO (XI
+    (XO XH))))))) :: ((Zpos (XI (XI (XO (XO (XI (XO XH))))))) :: ((Zpos (XI
+    (XO (XI (XO (XO (XO XH))))))) :: ((Zpos (XO (XO (XI (XO (XI (XO
+    XH))))))) :: [])))), (Zpos (XI (XI (XI (XI (XI (XO (XO
+    XH))))))))) :: ((((Zpos (XI (XO (XI (XI (XO (XO XH))))))) :: ((Zpos (XI
+    (XI (XI (XI (XO (XO XH))))))) :: ((Zpos (XO (XO (XI (XO (XI (XO
+    XH))))))) :: ((Zpos (XI (XI (XI (XI (XO (XO XH))))))) :: ((Zpos (XO (XI
+    (XO (XO (XI (XO XH))))))) :: []))))), (Zpos (XO (XO (XO (XO (XO (XI (XO
+    XH))))))))) :: ((((Zpos (XI (XI (XO (XO (XI (XO XH))))))) :: ((Zpos (XI
+    (XI (XO (XI (XO (XO XH))))))) :: ((Zpos (XI (XO (XO (XI (XO (XO
+    XH))))))) :: ((Zpos (XO (XO (XO (XO (XI (XO XH))))))) :: ((Zpos (XO (XI
+    (XI (XO (XO (XO XH))))))) :: []))))), (Zpos (XI (XO (XO (XO (XO (XI (XO
+    XH))))))))) :: ((((Zpos (XI (XO (XI (XO (XO (XO XH))))))) :: ((Zpos (XO
+    (XO (XO (XI (XI (XO XH))))))) :: ((Zpos (XI (XO (XI (XO (XO (XO
+    XH))))))) :: ((Zpos (XI (XI (XO (XO (XO (XO XH))))))) :: [])))), (Zpos
+    (XO (XI (XO (XO (XO (XI (XO XH))))))))) :: ((((Zpos (XO (XI (XO (XO (XO
+    (XO XH))))))) :: ((Zpos (XI (XO (XI (XO (XO (XO XH))))))) :: ((Zpos (XI
+    (XO (XI (XO (XO (XO XH))))))) :: ((Zpos (XO (XO (XO (XO (XI (XO
+    XH))))))) :: [])))), (Zpos (XI (XI (XO (XO (XO (XI (XO
+    XH))))))))) :: ((((Zpos (XI (XI (XO (XO (XO (XO XH))))))) :: ((Zpos (XI
+    (XI (XI (XI (XO (XO XH))))))) :: ((Zpos (XO (XO (XI (XI (XO (XO
+    XH))))))) :: ((Zpos (XI (XI (XI (XI (XO (XO XH))))))) :: ((Zpos (XO (XI
+    (XO (XO (XI (XO XH))))))) :: []))))), (Zpos (XO (XO (XI (XO (XO (XI (XO
+    XH))))))))) :: ((((Zpos (XO (XO (XI (XI (XO (XO XH))))))) :: ((Zpos (XI
+    (XO (XO (XI (XO (XO XH))))))) :: ((Zpos (XO (XI (XI (XI (XO (XO
+    XH))))))) :: ((Zpos (XI (XO (XI (XO (XO (XO XH))))))) :: [])))), (Zpos
+    (XI (XO (XI (XO (XO (XI (XO XH))))))))) :: ((((Zpos (XO (XI (XO (XO (XO
+    (XO XH))))))) :: ((Zpos (XI (XI (XI (XI (XO (XO XH))))))) :: ((Zpos (XO
+    (XO (XO (XI (XI (XO XH))))))) :: []))), (Zpos (XO (XI (XI (XO (XO (XI (XO
+    XH))))))))) :: ((((Zpos (XI (XO (XO (XO (XO (XO XH))))))) :: ((Zpos (XO
+    (XO (XI (XO (XI (XO XH))))))) :: ((Zpos (XO (XO (XI (XO (XI (XO
+    XH))))))) :: ((Zpos (XO (XI (XO (XO (XI (XO XH))))))) :: ((Zpos (XO (XI
+    (XO (XO (XO (XO XH))))))) :: []))))), (Zpos (XO (XO (XO (XI (XO (XI (XO
+    XH))))))))) :: ((((Zpos (XO (XO (XI (XO (XO (XO XH))))))) :: ((Zpos (XI
+    (XO (XI (XO (XO (XO XH))))))) :: ((Zpos (XO (XI (XI (XO (XO (XO
+    XH))))))) :: []))), (Zpos (XI (XO (XO (XI (XO (XI (XO
+    XH))))))))) :: ((((Zpos (XO (XO (XO (XO (XI (XO XH))))))) :: ((Zpos (XI
+    (XI (XI (XI (XO (XO XH))))))) :: ((Zpos (XI (XI (XO (XI (XO (XO
+    XH))))))) :: ((Zpos (XI (XO (XI (XO (XO (XO XH))))))) :: [])))), (Zpos
+    (XO (XI (XO (XI (XO (XI (XO XH))))))))) :: ((((Zpos (XO (XO (XO (XO (XI
+    (XO XH))))))) :: ((Zpos (XO (XI (XO (XO (XI (XO XH))))))) :: ((Zpos (XI
+    (XO (XO (XI (XO (XO XH))))))) :: ((Zpos (XO (XI (XI (XI (XO (XO
+    XH))))))) :: ((Zpos (XO (XO (XI (XO (XI (XO XH))))))) :: []))))), (Zpos
+    (XI (XI (XO (XI (XO (XI (XO XH))))))))) :: ((((Zpos (XI (XI (XO (XO (XO
+    (XO XH))))))) :: ((Zpos (XI (XI (XI (XI (XO (XO XH))))))) :: ((Zpos (XO
+    (XI (XI (XI (XO (XO XH))))))) :: ((Zpos (XO (XO (XI (XO (XI (XO
+    XH))))))) :: [])))), (Zpos (XO (XO (XI (XI (XO (XI (XO
+    XH))))))))) :: ((((Zpos (XO (XO (XI (XI (XO (XO XH))))))) :: ((Zpos (XI
+    (XO (XO (XI (XO (XO XH))))))) :: ((Zpos (XI (XI (XO (XO (XI (XO
+    XH))))))) :: ((Zpos (XO (XO (XI (XO (XI (XO XH))))))) :: [])))), (Zpos
+    (XI (XO (XI (XI (XO (XI (XO XH))))))))) :: ((((Zpos (XI (XI (XO (XO (XO
+    (XO XH))))))) :: ((Zpos (XO (XO (XI (XI (XO (XO XH))))))) :: ((Zpos (XI
+    (XO (XI (XO (XO (XO XH))))))) :: ((Zpos (XI (XO (XO (XO (XO (XO
+    XH))))))) :: ((Zpos (XO (XI (XO (XO (XI (XO XH))))))) :: []))))), (Zpos
+    (XO (XI (XI (XI (XO (XI (XO XH))))))))) :: ((((Zpos (XO (XO (XI (XO (XO
+    (XO XH))))))) :: ((Zpos (XI (XI (XI (XI (XO (XO XH))))))) :: ((Zpos (XI
+    (XI (XO (XO (XI (XO XH))))))) :: []))), (Zpos (XI (XI (XI (XI (XO (XI (XO
+    XH))))))))) :: ((((Zpos (XO (XI (XI (XI (XO (XO XH))))))) :: ((Zpos (XI
+    (XO (XI (XO (XO (XO XH))))))) :: ((Zpos (XI (XI (XI (XO (XI (XO
+    XH))))))) :: []))), (Zpos (XI (XO (XO (XO (XI (XI (XO
+    XH))))))))) :: ((((Zpos (XI (XI (XO (XO (XI (XO XH))))))) :: ((Zpos (XI
+    (XO (XO (XO (XO (XO XH))))))) :: ((Zpos (XO (XI (XI (XO (XI (XO
+    XH))))))) :: ((Zpos (XI (XO (XI (XO (XO (XO XH))))))) :: [])))), (Zpos
+    (XO (XI (XO (XO (XI (XI (XO XH))))))))) :: ((((Zpos (XO (XO (XI (XI (XO
+    (XO XH))))))) :: ((Zpos (XI (XI (XI (XI (XO (XO XH))))))) :: ((Zpos (XI
+    (XO (XO (XO (XO (XO XH))))))) :: ((Zpos (XO (XO (XI (XO (XO (XO
+    XH))))))) :: [])))), (Zpos (XI (XI (XO (XO (XI (XI (XO
+    XH))))))))) :: ((((Zpos (XI (XO (XI (XI (XO (XO XH))))))) :: ((Zpos (XI
+    (XO (XI (XO (XO (XO XH))))))) :: ((Zpos (XO (XI (XO (XO (XI (XO
+    XH))))))) :: ((Zpos (XI (XI (XI (XO (XO (XO XH))))))) :: ((Zpos (XI (XO
+    (XI (XO (XO (XO XH))))))) :: []))))), (Zpos (XO (XO (XI (XO (XI (XI (XO
+    XH))))))))) :: ((((Zpos (XI (XI (XI (XI (XO (XO XH))))))) :: ((Zpos (XO
+    (XO (XO (XO (XI (XO XH))))))) :: ((Zpos (XI (XO (XI (XO (XO (XO
+    XH))))))) :: ((Zpos (XO (XI (XI (XI (XO (XO XH))))))) :: [])))), (Zpos
+    (XI (XO (XI (XO (XI (XI (XO XH))))))))) :: ((((Zpos (XI (XI (XO (XO (XO
+    (XO XH))))))) :: ((Zpos (XO (XO (XI (XI (XO (XO XH))))))) :: ((Zpos (XI
+    (XI (XI (XI (XO (XO XH))))))) :: ((Zpos (XI (XI (XO (XO (XI (XO
+    XH))))))) :: ((Zpos (XI (XO (XI (XO (XO (XO XH))))))) :: []))))), (Zpos
+    (XO (XI (XI (XO (XI (XI (XO XH))))))))) :: ((((Zpos (XI (XO (XO (XI (XO
+    (XO XH))))))) :: ((Zpos (XO (XI (XI (XI (XO (XO XH))))))) :: ((Zpos (XO
+    (XO (XO (XO (XI (XO XH))))))) :: ((Zpos (XI (XO (XI (XO (XO (XO
+    XH))))))) :: ((Zpos (XO (XI (XI (XI (XO (XO XH))))))) :: []))))), (Zpos
+    (XI (XI (XI (XO (XI (XI (XO XH))))))))) :: ((((Zpos (XO (XO (XO (XO (XI
+    (XO XH))))))) :: ((Zpos (XI (XO (XI (XO (XO (XO XH))))))) :: ((Zpos (XO
+    (XI (XI (XI (XO (XO XH))))))) :: []))), (Zpos (XO (XO (XO (XI (XI (XI (XO
+    XH))))))))) :: ((((Zpos (XO (XO (XO (XO (XI (XO XH))))))) :: ((Zpos (XO
+    (XO (XI (XI (XO (XO XH))))))) :: ((Zpos (XI (XO (XO (XO (XO (XO
+    XH))))))) :: ((Zpos (XI (XO (XO (XI (XI (XO XH))))))) :: [])))), (Zpos
+    (XI (XO (XO (XI (XI (XI (XO XH))))))))) :: ((((Zpos (XO (XO (XI (XO (XI
+    (XO XH))))))) :: ((Zpos (XI (XO (XO (XO (XO (XO XH))))))) :: ((Zpos (XO
+    (XI (XO (XO (XO (XO XH))))))) :: []))), (Zpos (XO (XI (XO (XI (XI (XI (XO
+    XH))))))))) :: ((((Zpos (XO (XO (XI (XO (XI (XO XH))))))) :: ((Zpos (XI
+    (XI (XI (XI (XO (XO XH))))))) :: [])), (Zpos (XI (XI (XO (XI (XI (XI (XO
+    XH))))))))) :: ((((Zpos (XI (XI (XO (XO (XI (XO XH))))))) :: ((Zpos (XI
+    (XO (XI (XO (XI (XO XH))))))) :: ((Zpos (XO (XI (XO (XO (XO (XO
+    XH))))))) :: []))), (Zpos (XO (XO (XI (XI (XI (XI (XO
+    XH))))))))) :: ((((Zpos (XO (XI (XI (XO (XO (XO XH))))))) :: ((Zpos (XO
+    (XI (XI (XI (XO (XO XH))))))) :: ((Zpos (XI (XI (XO (XO (XO (XO
+    XH))))))) :: []))), (Zpos (XI (XO (XI (XI (XI (XI (XO
+    XH))))))))) :: ((((Zpos (XI (XI (XO (XO (XI (XO XH))))))) :: ((Zpos (XO
+    (XO (XO (XO (XI (XO XH))))))) :: ((Zpos (XI (XI (XO (XO (XO (XO
+    XH))))))) :: []))), (Zpos (XO (XI (XI (XI (XI (XI (XO
+    XH))))))))) :: ((((Zpos (XI (XO (XI (XO (XI (XO XH))))))) :: ((Zpos (XI
+    (XI (XO (XO (XI (XO XH))))))) :: ((Zpos (XI (XO (XO (XI (XO (XO
+    XH))))))) :: ((Zpos (XO (XI (XI (XI (XO (XO XH))))))) :: ((Zpos (XI (XI
+    (XI (XO (XO (XO XH))))))) :: []))))), (Zpos (XI (XI (XI (XI (XI (XI (XO
+    XH))))))))) :: ((((Zpos (XI (XO (XI (XO (XI (XO XH))))))) :: ((Zpos (XI
+    (XI (XO (XO (XI (XO XH))))))) :: ((Zpos (XO (XI (XO (XO (XI (XO
+    XH))))))) :: []))), (Zpos (XO (XO (XO (XO (XO (XO (XI
+    XH))))))))) :: ((((Zpos (XI (XO (XI (XO (XO (XO XH))))))) :: ((Zpos (XO
+    (XI (XO (XO (XI (XO XH))))))) :: ((Zpos (XO (XO (XI (XI (XO (XO
+    XH))))))) :: []))), (Zpos (XI (XO (XO (XO (XO (XO (XI
+    XH))))))))) :: ((((Zpos (XI (XO (XI (XO (XO (XO XH))))))) :: ((Zpos (XO
+    (XI (XO (XO (XI (XO XH))))))) :: ((Zpos (XO (XI (XO (XO (XI (XO
+    XH))))))) :: []))), (Zpos (XO (XI (XO (XO (XO (XO (XI
+    XH))))))))) :: ((((Zpos (XI (XI (XI (XI (XO (XO XH))))))) :: ((Zpos (XO
+    (XI (XI (XO (XO (XO XH))))))) :: ((Zpos (XO (XI (XI (XO (XO (XO
+    XH))))))) :: []))), (Zpos (XI (XI (XO (XO (XO (XO (XI
+    XH))))))))) :: ((((Zpos (XO (XO (XI (XO (XI (XO XH))))))) :: ((Zpos (XO
+    (XO (XO (XI (XO (XO XH))))))) :: ((Zpos (XI (XO (XI (XO (XO (XO
+    XH))))))) :: ((Zpos (XO (XI (XI (XI (XO (XO XH))))))) :: [])))), (Zpos
+    (XO (XO (XI (XO (XO (XO (XI XH))))))))) :: ((((Zpos (XO (XI (XI (XI (XO
+    (XO XH))))))) :: ((Zpos (XI (XI (XI (XI (XO (XO XH))))))) :: ((Zpos (XO
+    (XO (XI (XO (XI (XO XH))))))) :: []))), (Zpos (XI (XO (XI (XO (XO (XO (XI
+    XH))))))))) :: ((((Zpos (XI (XI (XO (XO (XI (XO XH))))))) :: ((Zpos (XO
+    (XO (XI (XO (XI (XO XH))))))) :: ((Zpos (XI (XO (XI (XO (XO (XO
+    XH))))))) :: ((Zpos (XO (XO (XO (XO (XI (XO XH))))))) :: [])))), (Zpos
+    (XO (XI (XI (XO (XO (XO (XI XH))))))))) :: ((((Zpos (XI (XI (XO (XI (XO
+    XH)))))) :: []), (Zpos (XI (XI (XI (XO (XO (XO (XI
+    XH))))))))) :: ((((Zpos (XI (XO (XI (XI (XO XH)))))) :: []), (Zpos (XO
+    (XO (XO (XI (XO (XO (XI XH))))))))) :: ((((Zpos (XO (XI (XO (XI (XO
+    XH)))))) :: []), (Zpos (XI (XO (XO (XI (XO (XO (XI
+    XH))))))))) :: ((((Zpos (XI (XI (XI (XI (XO XH)))))) :: []), (Zpos (XO
+    (XI (XO (XI (XO (XO (XI XH))))))))) :: ((((Zpos (XO (XI (XI (XI (XI (XO
+    XH))))))) :: []), (Zpos (XI (XI (XO (XI (XO (XO (XI
+    XH))))))))) :: ((((Zpos (XI (XO (XO (XO (XO (XO XH))))))) :: ((Zpos (XO
+    (XI (XI (XI (XO (XO XH))))))) :: ((Zpos (XO (XO (XI (XO (XO (XO
+    XH))))))) :: []))), (Zpos (XO (XO (XI (XI (XO (XO (XI
+    XH))))))))) :: ((((Zpos (XI (XI (XI (XI (XO (XO XH))))))) :: ((Zpos (XO
+    (XI (XO (XO (XI (XO XH))))))) :: [])), (Zpos (XI (XO (XI (XI (XO (XO (XI
+    XH))))))))) :: ((((Zpos (XO (XO (XO (XI (XI (XO XH))))))) :: ((Zpos (XI
+    (XI (XI (XI (XO (XO XH))))))) :: ((Zpos (XO (XI (XO (XO (XI (XO
+    XH))))))) :: []))), (Zpos (XO (XI (XI (XI (XO (XO (XI
+    XH))))))))) :: ((((Zpos (XI (XO (XI (XO (XO (XO XH))))))) :: ((Zpos (XI
+    (XO (XO (XO (XI (XO XH))))))) :: ((Zpos (XO (XI (XI (XO (XI (XO
+    XH))))))) :: []))), (Zpos (XI (XI (XI (XI (XO (XO (XI
+    XH))))))))) :: ((((Zpos (XI (XO (XO (XI (XO (XO XH))))))) :: ((Zpos (XI
+    (XO (XI (XI (XO (XO XH))))))) :: ((Zpos (XO (XO (XO (XO (XI (XO
+    XH))))))) :: []))), (Zpos (XO (XO (XO (XO (XI (XO (XI
+    XH))))))))) :: ((((Zpos (XI (XO (XI (XI (XO (XO XH))))))) :: ((Zpos (XI
+    (XI (XI (XI (XO (XO XH))))))) :: ((Zpos (XO (XO (XI (XO (XO (XO
+    XH))))))) :: []))), (Zpos (XI (XO (XO (XO (XI (XO (XI
+    XH))))))))) :: ((((Zpos (XO (XI (XI (XI (XI XH)))))) :: []), (Zpos (XI
+    (XI (XO (XO (XI (XO (XI XH))))))))) :: ((((Zpos (XI (XO (XI (XI (XI
+    XH)))))) :: []), (Zpos (XO (XO (XI (XO (XI (XO (XI
+    XH))))))))) :: ((((Zpos (XO (XO (XI (XI (XI XH)))))) :: []), (Zpos (XI
+    (XO (XI (XO (XI (XO (XI XH))))))))) :: ((((Zpos (XO (XO (XI (XO (XO (XO
+    XH))))))) :: ((Zpos (XI (XI (XO (XO (XI (XO XH))))))) :: ((Zpos (XI (XI
+    (XO (XI (XO (XO XH))))))) :: ((Zpos (XI (XO (XO (XI (XO (XO
+    XH))))))) :: ((Zpos (XO (XI (XI (XI (XO (XO XH))))))) :: []))))), (Zpos
+    (XO (XI (XI (XO (XI (XO (XI XH))))))))) :: ((((Zpos (XO (XO (XI (XO (XO
+    (XO XH))))))) :: ((Zpos (XI (XI (XO (XO (XI (XO XH))))))) :: ((Zpos (XI
+    (XI (XO (XI (XO (XO XH))))))) :: ((Zpos (XI (XI (XI (XI (XO (XO
+    XH))))))) :: ((Zpos (XO (XO (XI (XO (XO XH)))))) :: []))))), (Zpos (XI
+    (XI (XI (XO (XI (XO (XI XH))))))))) :: ((((Zpos (XI (XI (XO (XI (XO (XO
+    XH))))))) :: ((Zpos (XI (XO (XO (XI (XO (XO XH))))))) :: ((Zpos (XO (XO
+    (XI (XI (XO (XO XH))))))) :: ((Zpos (XO (XO (XI (XI (XO (XO
+    XH))))))) :: [])))), (Zpos (XO (XO (XO (XI (XI (XO (XI
+    XH))))))))) :: ((((Zpos (XO (XI (XI (XI (XO (XO XH))))))) :: ((Zpos (XI
+    (XO (XO (XO (XO (XO XH))))))) :: ((Zpos (XI (XO (XI (XI (XO (XO
+    XH))))))) :: ((Zpos (XI (XO (XI (XO (XO (XO XH))))))) :: [])))), (Zpos
+    (XI (XO (XO (XI (XI (XO (XI XH))))))))) :: ((((Zpos (XO (XI (XI (XO (XO
+    (XO XH))))))) :: ((Zpos (XI (XO (XO (XI (XO (XO XH))))))) :: ((Zpos (XI
+    (XO (XI (XO (XO (XO XH))))))) :: ((Zpos (XO (XO (XI (XI (XO (XO
+    XH))))))) :: ((Zpos (XO (XO (XI (XO (XO (XO XH))))))) :: []))))), (Zpos
+    (XO (XI (XO (XI (XI (XO (XI XH))))))))) :: ((((Zpos (XO (XO (XI (XI (XO
+    (XO XH))))))) :: ((Zpos (XI (XI (XO (XO (XI (XO XH))))))) :: ((Zpos (XI
+    (XO (XI (XO (XO (XO XH))))))) :: ((Zpos (XO (XO (XI (XO (XI (XO
+    XH))))))) :: [])))), (Zpos (XI (XI (XO (XI (XI (XO (XI
+    XH))))))))) :: ((((Zpos (XO (XI (XO (XO (XI (XO XH))))))) :: ((Zpos (XI
+    (XI (XO (XO (XI (XO XH))))))) :: ((Zpos (XI (XO (XI (XO (XO (XO
+    XH))))))) :: ((Zpos (XO (XO (XI (XO (XI (XO XH))))))) :: [])))), (Zpos
+    (XO (XO (XI (XI (XI (XO (XI XH))))))))) :: ((((Zpos (XO (XO (XO (XO (XI
+    (XO XH))))))) :: ((Zpos (XI (XO (XI (XO (XI (XO XH))))))) :: ((Zpos (XO
+    (XO (XI (XO (XI (XO XH))))))) :: []))), (Zpos (XI (XO (XI (XI (XI (XO (XI
+    XH))))))))) :: ((((Zpos (XI (XI (XI (XO (XO (XO XH))))))) :: ((Zpos (XI
+    (XO (XI (XO (XO (XO XH))))))) :: ((Zpos (XO (XO (XI (XO (XI (XO
+    XH))))))) :: []))), (Zpos (XO (XI (XI (XI (XI (XO (XI
+    XH))))))))) :: ((((Zpos (XO (XI (XI (XO (XI (XO XH))))))) :: ((Zpos (XI
+    (XO (XI (XO (XO (XO XH))))))) :: ((Zpos (XO (XI (XO (XO (XI (XO
+    XH))))))) :: ((Zpos (XI (XO (XO (XI (XO (XO XH))))))) :: ((Zpos (XO (XI
+    (XI (XO (XO (XO XH))))))) :: ((Zpos (XI (XO (XO (XI (XI (XO
+    XH))))))) :: [])))))), (Zpos (XI (XI (XI (XI (XI (XO (XI
+    XH))))))))) :: ((((Zpos (XO (XO (XI (XO (XO (XO XH))))))) :: ((Zpos (XI
+    (XO (XI (XO (XO (XO XH))))))) :: ((Zpos (XO (XI (XI (XO (XI (XO
+    XH))))))) :: ((Zpos (XI (XO (XO (XI (XO (XO XH))))))) :: ((Zpos (XI (XI
+    (XO (XO (XO (XO XH))))))) :: ((Zpos (XI (XO (XI (XO (XO (XO
+    XH))))))) :: [])))))), (Zpos (XO (XO (XO (XO (XO (XI (XI
+    XH))))))))) :: ((((Zpos (XO (XO (XI (XO (XO (XO XH))))))) :: ((Zpos (XI
+    (XO (XO (XI (XO (XO XH))))))) :: ((Zpos (XO (XI (XO (XO (XI (XO
+    XH))))))) :: []))), (Zpos (XI (XO (XO (XO (XO (XI (XI
+    XH))))))))) :: ((((Zpos (XO (XI (XI (XO (XO (XO XH))))))) :: ((Zpos (XI
+    (XO (XO (XI (XO (XO XH))))))) :: ((Zpos (XO (XO (XI (XI (XO (XO
+    XH))))))) :: ((Zpos (XI (XO (XI (XO (XO (XO XH))))))) :: ((Zpos (XI (XI
+    (XO (XO (XI (XO XH))))))) :: []))))), (Zpos (XO (XI (XO (XO (XO (XI (XI
+    XH))))))))) :: ((((Zpos (XI (XI (XI (XO (XI (XO XH))))))) :: ((Zpos (XO
+    (XI (XO (XO (XI (XO XH))))))) :: ((Zpos (XI (XO (XO (XI (XO (XO
+    XH))))))) :: ((Zpos (XO (XO (XI (XO (XI (XO XH))))))) :: ((Zpos (XI (XO
+    (XI (XO (XO (XO XH))))))) :: []))))), (Zpos (XI (XI (XO (XO (XO (XI (XI
+    XH))))))))) :: ((((Zpos (XI (XO (XI (XO (XI (XO XH))))))) :: ((Zpos (XO
+    (XI (XI (XI (XO (XO XH))))))) :: ((Zpos (XO (XO (XI (XI (XO (XO
+    XH))))))) :: ((Zpos (XI (XI (XI (XI (XO (XO XH))))))) :: ((Zpos (XI (XO
+    (XO (XO (XO (XO XH))))))) :: ((Zpos (XO (XO (XI (XO (XO (XO
+    XH))))))) :: [])))))), (Zpos (XO (XO (XI (XO (XO (XI (XI
+    XH))))))))) :: ((((Zpos (XO (XI (XO (XO (XO (XO XH))))))) :: ((Zpos (XI
+    (XO (XO (XO (XO (XO XH))))))) :: ((Zpos (XI (XI (XO (XO (XO (XO
+    XH))))))) :: ((Zpos (XI (XI (XO (XI (XO (XO XH))))))) :: ((Zpos (XI (XO
+    (XI (XO (XI (XO XH))))))) :: ((Zpos (XO (XO (XO (XO (XI (XO
+    XH))))))) :: [])))))), (Zpos (XI (XO (XI (XO (XO (XI (XI
+    XH))))))))) :: ((((Zpos (XI (XI (XO (XO (XO (XO XH))))))) :: ((Zpos (XI
+    (XI (XI (XI (XO (XO XH))))))) :: ((Zpos (XO (XO (XO (XO (XI (XO
+    XH))))))) :: ((Zpos (XI (XO (XO (XI (XI (XO XH))))))) :: [])))), (Zpos
+    (XO (XI (XI (XO (XO (XI (XI XH))))))))) :: ((((Zpos (XI (XI (XO (XO (XO
+    (XO XH))))))) :: ((Zpos (XI (XO (XO (XI (XO (XO XH))))))) :: ((Zpos (XO
+    (XI (XO (XO (XI (XO XH))))))) :: ((Zpos (XI (XI (XO (XO (XO (XO
+    XH))))))) :: ((Zpos (XO (XO (XI (XI (XO (XO XH))))))) :: ((Zpos (XI (XO
+    (XI (XO (XO (XO XH))))))) :: [])))))), (Zpos (XI (XI (XI (XO (XO (XI (XI
+    XH))))))))) :: ((((Zpos (XO (XO (XO (XO (XI (XO XH))))))) :: ((Zpos (XI
+    (XO (XO (XO (XO (XO XH))))))) :: ((Zpos (XI (XO (XO (XI (XO (XO
+    XH))))))) :: ((Zpos (XO (XI (XI (XI (XO (XO XH))))))) :: ((Zpos (XO (XO
+    (XI (XO (XI (XO XH))))))) :: []))))), (Zpos (XO (XO (XO (XI (XO (XI (XI
+    XH))))))))) :: ((((Zpos (XO (XO (XI (XO (XO (XO XH))))))) :: ((Zpos (XO
+    (XI (XO (XO (XI (XO XH))))))) :: ((Zpos (XI (XO (XO (XO (XO (XO
+    XH))))))) :: ((Zpos (XI (XI (XI (XO (XI (XO XH))))))) :: [])))), (Zpos
+    (XI (XO (XO (XI (XO (XI (XI XH))))))))) :: ((((Zpos (XO (XI (XO (XO (XI
+    (XO XH))))))) :: ((Zpos (XI (XO (XI (XO (XO (XO XH))))))) :: ((Zpos (XO
+    (XI (XI (XI (XO (XO XH))))))) :: ((Zpos (XI (XO (XI (XO (XI (XO
+    XH))))))) :: ((Zpos (XI (XO (XI (XI (XO (XO XH))))))) :: []))))), (Zpos
+    (XO (XI (XO (XI (XO (XI (XI XH))))))))) :: ((((Zpos (XI (XI (XO (XO (XI
+    (XO XH))))))) :: ((Zpos (XI (XI (XI (XO (XI (XO XH))))))) :: ((Zpos (XI
+    (XO (XO (XO (XO (XO XH))))))) :: ((Zpos (XO (XO (XO (XO (XI (XO
+    XH))))))) :: [])))), (Zpos (XI (XI (XO (XI (XO (XI (XI
+    XH))))))))) :: ((((Zpos (XI (XI (XO (XO (XI (XO XH))))))) :: ((Zpos (XI
+    (XI (XI (XO (XO (XO XH))))))) :: ((Zpos (XO (XI (XI (XI (XO (XO
+    XH))))))) :: []))), (Zpos (XO (XO (XO (XO (XO (XO (XO (XI (XI (XI (XI (XI
+    (XI (XI (XI XH))))))))))))))))) :: ((((Zpos (XI (XO (XO (XI (XO (XO
+    XH))))))) :: ((Zpos (XO (XI (XI (XI (XO (XO XH))))))) :: ((Zpos (XO (XO
+    (XI (XO (XI (XO XH))))))) :: []))), (Zpos (XI (XO (XO (XO (XO (XO (XO (XI
+    (XI (XI (XI (XI (XI (XI (XI XH))))))))))))))))) :: ((((Zpos (XI (XO (XO
+    (XO (XO (XO XH))))))) :: ((Zpos (XO (XO (XO (XO (XI (XO
+    XH))))))) :: ((Zpos (XI (XI (XO (XO (XI (XO XH))))))) :: []))), (Zpos (XO
+    (XI (XO (XO (XO (XO (XO (XI (XI (XI (XI (XI (XI (XI (XI
+    XH))))))))))))))))) :: ((((Zpos (XO (XI (XI (XO (XO (XO
+    XH))))))) :: ((Zpos (XO (XI (XO (XO (XI (XO XH))))))) :: ((Zpos (XI (XO
+    (XI (XO (XO (XO XH))))))) :: []))), (Zpos (XI (XI (XO (XO (XO (XO (XO (XI
+    (XI (XI (XI (XI (XI (XI (XI XH))))))))))))))))) :: ((((Zpos (XI (XI (XO
+    (XO (XI (XO XH))))))) :: ((Zpos (XI (XO (XO (XO (XI (XO
+    XH))))))) :: ((Zpos (XO (XO (XI (XI (XO (XO XH))))))) :: []))), (Zpos (XO
+    (XO (XI (XO (XO (XO (XO (XI (XI (XI (XI (XI (XI (XI (XI
+    XH))))))))))))))))) :: ((((Zpos (XO (XO (XI (XI (XO (XO
+    XH))))))) :: ((Zpos (XI (XI (XI (XI (XO (XO XH))))))) :: ((Zpos (XI (XI
+    (XI (XO (XO (XO XH))))))) :: []))), (Zpos (XI (XO (XI (XO (XO (XO (XO (XI
+    (XI (XI (XI (XI (XI (XI (XI XH))))))))))))))))) :: ((((Zpos (XI (XO (XI
+    (XO (XO (XO XH))))))) :: ((Zpos (XO (XO (XO (XI (XI (XO
+    XH))))))) :: ((Zpos (XO (XO (XO (XO (XI (XO XH))))))) :: []))), (Zpos (XO
+    (XI (XI (XO (XO (XO (XO (XI (XI (XI (XI (XI (XI (XI (XI
+    XH))))))))))))))))) :: ((((Zpos (XI (XI (XO (XO (XO (XO
+    XH))))))) :: ((Zpos (XI (XI (XI (XI (XO (XO XH))))))) :: ((Zpos (XI (XI
+    (XO (XO (XI (XO XH))))))) :: []))), (Zpos (XI (XI (XI (XO (XO (XO (XO (XI
+    (XI (XI (XI (XI (XI (XI (XI XH))))))))))))))))) :: ((((Zpos (XI (XI (XO
+    (XO (XI (XO XH))))))) :: ((Zpos (XI (XO (XO (XI (XO (XO
+    XH))))))) :: ((Zpos (XO (XI (XI (XI (XO (XO XH))))))) :: []))), (Zpos (XO
+    (XO (XO (XI (XO (XO (XO (XI (XI (XI (XI (XI (XI (XI (XI
+    XH))))))))))))))))) :: ((((Zpos (XO (XO (XI (XO (XI (XO
+    XH))))))) :: ((Zpos (XI (XO (XO (XO (XO (XO XH))))))) :: ((Zpos (XO (XI
+    (XI (XI (XO (XO XH))))))) :: []))), (Zpos (XI (XO (XO (XI (XO (XO (XO (XI
+    (XI (XI (XI (XI (XI (XI (XI XH))))))))))))))))) :: ((((Zpos (XO (XO (XO
+    (XO (XI (XO XH))))))) :: ((Zpos (XI (XO (XI (XO (XO (XO
+    XH))))))) :: ((Zpos (XI (XO (XI (XO (XO (XO XH))))))) :: ((Zpos (XI (XI
+    (XO (XI (XO (XO XH))))))) :: [])))), (Zpos (XO (XI (XO (XI (XO (XO (XO
+    (XI (XI (XI (XI (XI (XI (XI (XI XH))))))))))))))))) :: ((((Zpos (XO (XO
+    (XI (XI (XO (XO XH))))))) :: ((Zpos (XI (XO (XI (XO (XO (XO
+    XH))))))) :: ((Zpos (XO (XI (XI (XI (XO (XO XH))))))) :: []))), (Zpos (XI
+    (XI (XO (XI (XO (XO (XO (XI (XI (XI (XI (XI (XI (XI (XI
+    XH))))))))))))))))) :: ((((Zpos (XI (XI (XO (XO (XI (XO
+    XH))))))) :: ((Zpos (XO (XO (XI (XO (XI (XO XH))))))) :: ((Zpos (XO (XI
+    (XO (XO (XI (XO XH))))))) :: ((Zpos (XO (XO (XI (XO (XO
+    XH)))))) :: [])))), (Zpos (XO (XO (XI (XI (XO (XO (XO (XI (XI (XI (XI (XI
+    (XI (XI (XI XH))))))))))))))))) :: ((((Zpos (XO (XI (XI (XO (XI (XO
+    XH))))))) :: ((Zpos (XI (XO (XO (XO (XO (XO XH))))))) :: ((Zpos (XO (XO
+    (XI (XI (XO (XO XH))))))) :: []))), (Zpos (XI (XO (XI (XI (XO (XO (XO (XI
+    (XI (XI (XI (XI (XI (XI (XI XH))))))))))))))))) :: ((((Zpos (XI (XO (XO
+    (XO (XO (XO XH))))))) :: ((Zpos (XI (XI (XO (XO (XI (XO
+    XH))))))) :: ((Zpos (XI (XI (XO (XO (XO (XO XH))))))) :: []))), (Zpos (XO
+    (XI (XI (XI (XO (XO (XO (XI (XI (XI (XI (XI (XI (XI (XI
+    XH))))))))))))))))) :: ((((Zpos (XI (XI (XO (XO (XO (XO
+    XH))))))) :: ((Zpos (XO (XO (XO (XI (XO (XO XH))))))) :: ((Zpos (XO (XI
+    (XO (XO (XI (XO XH))))))) :: ((Zpos (XO (XO (XI (XO (XO
+    XH)))))) :: [])))), (Zpos (XI (XI (XI (XI (XO (XO (XO (XI (XI (XI (XI (XI
+    (XI (XI (XI XH))))))))))))))))) :: ((((Zpos (XI (XO (XI (XO (XO (XO
+    XH))))))) :: ((Zpos (XI (XI (XI (XI (XO (XO XH))))))) :: ((Zpos (XO (XI
+    (XI (XO (XO (XO XH))))))) :: []))), (Zpos (XO (XO (XO (XO (XI (XO (XO (XI
+    (XI (XI (XI (XI (XI (XI (XI XH))))))))))))))))) :: ((((Zpos (XI (XI (XO
+    (XO (XO (XO XH))))))) :: ((Zpos (XI (XO (XO (XI (XO (XO
+    XH))))))) :: ((Zpos (XO (XI (XI (XI (XO (XO XH))))))) :: ((Zpos (XO (XO
+    (XI (XO (XI (XO XH))))))) :: [])))), (Zpos (XI (XO (XO (XO (XI (XO (XO
+    (XI (XI (XI (XI (XI (XI (XI (XI XH))))))))))))))))) :: ((((Zpos (XI (XI
+    (XO (XO (XO (XO XH))))))) :: ((Zpos (XI (XI (XO (XO (XI (XO
+    XH))))))) :: ((Zpos (XO (XI (XI (XI (XO (XO XH))))))) :: ((Zpos (XI (XI
+    (XI (XO (XO (XO XH))))))) :: [])))), (Zpos (XO (XI (XO (XO (XI (XO (XO
+    (XI (XI (XI (XI (XI (XI (XI (XI XH))))))))))))))))) :: ((((Zpos (XI (XI
+    (XO (XO (XO (XO XH))))))) :: ((Zpos (XO (XO (XI (XO (XO (XO
+    XH))))))) :: ((Zpos (XO (XI (XO (XO (XO (XO XH))))))) :: ((Zpos (XO (XO
+    (XI (XI (XO (XO XH))))))) :: [])))), (Zpos (XI (XI (XO (XO (XI (XO (XO
+    (XI (XI (XI (XI (XI (XI (XI (XI XH))))))))))))))))) :: ((((Zpos (XO (XI
+    (XI (XO (XO (XO XH))))))) :: ((Zpos (XI (XO (XO (XI (XO (XO
+    XH))))))) :: ((Zpos (XO (XO (XO (XI (XI (XO XH))))))) :: []))), (Zpos (XO
+    (XO (XI (XO (XI (XO (XO (XI (XI (XI (XI (XI (XI (XI (XI
+    XH))))))))))))))))) :: ((((Zpos (XO (XO (XO (XI (XO (XO
+    XH))))))) :: ((Zpos (XI (XO (XI (XO (XO (XO XH))))))) :: ((Zpos (XO (XO
+    (XO (XI (XI (XO XH))))))) :: ((Zpos (XO (XO (XI (XO (XO
+    XH)))))) :: [])))), (Zpos (XI (XO (XI (XO (XI (XO (XO (XI (XI (XI (XI (XI
+    (XI (XI (XI XH))))))))))))))))) :: ((((Zpos (XI (XI (XI (XI (XO (XO
+    XH))))))) :: ((Zpos (XI (XI (XO (XO (XO (XO XH))))))) :: ((Zpos (XO (XO
+    (XI (XO (XI (XO XH))))))) :: ((Zpos (XO (XO (XI (XO (XO
+    XH)))))) :: [])))), (Zpos (XO (XI (XI (XO (XI (XO (XO (XI (XI (XI (XI (XI
+    (XI (XI (XI XH))))))))))))))))) :: ((((Zpos (XI (XI (XO (XO (XI (XO
+    XH))))))) :: ((Zpos (XO (XO (XI (XO (XI (XO XH))))))) :: ((Zpos (XI (XO
+    (XO (XI (XO (XO XH))))))) :: ((Zpos (XI (XI (XO (XO (XO (XO
+    XH))))))) :: ((Zpos (XI (XI (XO (XI (XO (XO XH))))))) :: []))))), (Zpos
+    (XI (XI (XI (XO (XI (XO (XO (XI (XI (XI (XI (XI (XI (XI (XI
+    XH))))))))))))))))) :: ((((Zpos (XI (XI (XO (XO (XI (XO
+    XH))))))) :: ((Zpos (XO (XO (XI (XO (XI (XO XH))))))) :: ((Zpos (XO (XI
+    (XO (XO (XI (XO XH))))))) :: ((Zpos (XI (XO (XO (XI (XO (XO
+    XH))))))) :: ((Zpos (XI (XI (XI (XO (XO (XO XH))))))) :: []))))), (Zpos
+    (XO (XO (XO (XI (XI (XO (XO (XI (XI (XI (XI (XI (XI (XI (XI
+    XH))))))))))))))))) :: ((((Zpos (XI (XI (XI (XO (XO (XO
+    XH))))))) :: ((Zpos (XO (XI (XO (XO (XI (XO XH))))))) :: ((Zpos (XO (XO
+    (XI (XO (XO XH)))))) :: []))), (Zpos (XI (XO (XO (XI (XI (XO (XO (XI (XI
+    (XI (XI (XI (XI (XI (XI XH))))))))))))))))) :: ((((Zpos (XO (XO (XI (XI
+    (XO (XO XH))))))) :: ((Zpos (XI (XO (XI (XO (XO (XO XH))))))) :: ((Zpos
+    (XO (XI (XI (XO (XO (XO XH))))))) :: ((Zpos (XO (XO (XI (XO (XI (XO
+    XH))))))) :: ((Zpos (XO (XO (XI (XO (XO XH)))))) :: []))))), (Zpos (XO
+    (XI (XO (XI (XI (XO (XO (XI (XI (XI (XI (XI (XI (XI (XI
+    XH))))))))))))))))) :: ((((Zpos (XO (XI (XO (XO (XI (XO
+    XH))))))) :: ((Zpos (XI (XO (XO (XI (XO (XO XH))))))) :: ((Zpos (XI (XI
+    (XI (XO (XO (XO XH))))))) :: ((Zpos (XO (XO (XO (XI (XO (XO
+    XH))))))) :: ((Zpos (XO (XO (XI (XO (XI (XO XH))))))) :: ((Zpos (XO (XO
+    (XI (XO (XO XH)))))) :: [])))))), (Zpos (XI (XI (XO (XI (XI (XO (XO (XI
+    (XI (XI (XI (XI (XI (XI (XI XH))))))))))))))))) :: ((((Zpos (XI (XO (XI
+    (XI (XO (XO XH))))))) :: ((Zpos (XI (XO (XO (XI (XO (XO
+    XH))))))) :: ((Zpos (XO (XO (XI (XO (XO (XO XH))))))) :: ((Zpos (XO (XO
+    (XI (XO (XO XH)))))) :: [])))), (Zpos (XO (XO (XI (XI (XI (XO (XO (XI (XI
+    (XI (XI (XI (XI (XI (XI XH))))))))))))))))) :: ((((Zpos (XI (XO (XO (XI
+    (XO (XO XH))))))) :: ((Zpos (XO (XI (XI (XI (XO (XO XH))))))) :: ((Zpos
+    (XI (XI (XO (XO (XI (XO XH))))))) :: ((Zpos (XO (XO (XI (XO (XI (XO
+    XH))))))) :: ((Zpos (XO (XI (XO (XO (XI (XO XH))))))) :: []))))), (Zpos
+    (XI (XO (XI (XI (XI (XO (XO (XI (XI (XI (XI (XI (XI (XI (XI
+    XH))))))))))))))))) :: ((((Zpos (XO (XI (XI (XO (XI (XO
+    XH))))))) :: ((Zpos (XI (XO (XO (XO (XO (XO XH))))))) :: ((Zpos (XO (XI
+    (XO (XO (XI (XO XH))))))) :: ((Zpos (XO (XO (XO (XO (XI (XO
+    XH))))))) :: ((Zpos (XO (XO (XI (XO (XI (XO XH))))))) :: ((Zpos (XO (XI
+    (XO (XO (XI (XO XH))))))) :: [])))))), (Zpos (XO (XI (XI (XI (XI (XO (XO
+    (XI (XI (XI (XI (XI (XI (XI (XI XH))))))))))))))))) :: ((((Zpos (XO (XI
+    (XO (XO (XI (XO XH))))))) :: ((Zpos (XO (XI (XI (XI (XO (XO
+    XH))))))) :: ((Zpos (XO (XO (XI (XO (XO (XO XH))))))) :: []))), (Zpos (XI
+    (XI (XI (XI (XI (XO (XO (XI (XI (XI (XI (XI (XI (XI (XI
+    XH))))))))))))))))) :: ((((Zpos (XI (XO (XO (XI (XO (XO
+    XH))))))) :: ((Zpos (XO (XI (XI (XI (XO (XO XH))))))) :: ((Zpos (XI (XI
+    (XO (XI (XO (XO XH))))))) :: ((Zpos (XI (XO (XI (XO (XO (XO
+    XH))))))) :: ((Zpos (XI (XO (XO (XI (XI (XO XH))))))) :: ((Zpos (XO (XO
+    (XI (XO (XO XH)))))) :: [])))))), (Zpos (XO (XO (XO (XO (XO (XI (XO (XI
+    (XI (XI (XI (XI (XI (XI (XI XH))))))))))))))))) :: ((((Zpos (XI (XO (XO
+    (XI (XO (XO XH))))))) :: ((Zpos (XO (XI (XI (XI (XO (XO
+    XH))))))) :: ((Zpos (XO (XO (XO (XO (XI (XO XH))))))) :: ((Zpos (XI (XO
+    (XI (XO (XI (XO XH))))))) :: ((Zpos (XO (XO (XI (XO (XI (XO
+    XH))))))) :: []))))), (Zpos (XI (XO (XO (XO (XO (XI (XO (XI (XI (XI (XI
+    (XI (XI (XI (XI XH))))))))))))))))) :: ((((Zpos (XI (XI (XO (XO (XO (XO
+    XH))))))) :: ((Zpos (XI (XI (XO (XO (XI (XO XH))))))) :: ((Zpos (XO (XI
+    (XO (XO (XI (XO XH))))))) :: ((Zpos (XO (XO (XI (XI (XO (XO
+    XH))))))) :: ((Zpos (XI (XO (XO (XI (XO (XO XH))))))) :: ((Zpos (XO (XI
+    (XI (XI (XO (XO XH))))))) :: [])))))), (Zpos (XO (XI (XO (XO (XO (XI (XO
+    (XI (XI (XI (XI (XI (XI (XI (XI XH))))))))))))))))) :: ((((Zpos (XO (XO
+    (XO (XO (XI (XO XH))))))) :: ((Zpos (XI (XI (XI (XI (XO (XO
+    XH))))))) :: ((Zpos (XI (XO (XO (XI (XO (XO XH))))))) :: ((Zpos (XO (XI
+    (XI (XI (XO (XO XH))))))) :: ((Zpos (XO (XO (XI (XO (XI (XO
+    XH))))))) :: []))))), (Zpos (XI (XI (XO (XO (XO (XI (XO (XI (XI (XI (XI
+    (XI (XI (XI (XI XH))))))))))))))))) :: ((((Zpos (XI (XI (XO (XO (XI (XO
+    XH))))))) :: ((Zpos (XI (XI (XO (XO (XO (XO XH))))))) :: ((Zpos (XO (XI
+    (XO (XO (XI (XO XH))))))) :: ((Zpos (XI (XO (XI (XO (XO (XO
+    XH))))))) :: ((Zpos (XI (XO (XI (XO (XO (XO XH))))))) :: ((Zpos (XO (XI
+    (XI (XI (XO (XO XH))))))) :: [])))))), (Zpos (XO (XO (XI (XO (XO (XI (XO
+    (XI (XI (XI (XI (XI (XI (XI (XI XH))))))))))))))))) :: ((((Zpos (XO (XO
+    (XO (XO (XI (XO XH))))))) :: ((Zpos (XI (XI (XI (XI (XO (XO
+    XH))))))) :: ((Zpos (XI (XI (XO (XO (XI (XO XH))))))) :: []))), (Zpos (XI
+    (XO (XI (XO (XO (XI (XO (XI (XI (XI (XI (XI (XI (XI (XI
+    XH))))))))))))))))) :: ((((Zpos (XO (XO (XO (XO (XI (XO
+    XH))))))) :: ((Zpos (XO (XO (XI (XO (XI (XO XH))))))) :: ((Zpos (XO (XI
+    (XO (XO (XI (XO XH))))))) :: ((Zpos (XI (XO (XO (XI (XO (XO
+    XH))))))) :: ((Zpos (XI (XI (XI (XO (XO (XO XH))))))) :: []))))), (Zpos
+    (XO (XI (XI (XO (XO (XI (XO (XI (XI (XI (XI (XI (XI (XI (XI
+    XH))))))))))))))))) :: ((((Zpos (XO (XO (XI (XO (XO (XO
+    XH))))))) :: ((Zpos (XI (XI (XO (XO (XI (XO XH))))))) :: ((Zpos (XI (XI
+    (XO (XI (XO (XO XH))))))) :: ((Zpos (XO (XI (XI (XO (XO (XO
+    XH))))))) :: [])))), (Zpos (XI (XI (XI (XO (XO (XI (XO (XI (XI (XI (XI
+    (XI (XI (XI (XI XH))))))))))))))))) :: ((((Zpos (XI (XI (XO (XO (XO (XO
+    XH))))))) :: ((Zpos (XO (XI (XI (XO (XI (XO XH))))))) :: ((Zpos (XI (XO
+    (XO (XI (XO (XO XH))))))) :: []))), (Zpos (XO (XO (XO (XI (XO (XI (XO (XI
+    (XI (XI (XI (XI (XI (XI (XI XH))))))))))))))))) :: ((((Zpos (XI (XI (XO
+    (XO (XO (XO XH))))))) :: ((Zpos (XO (XI (XI (XO (XI (XO
+    XH))))))) :: ((Zpos (XI (XI (XO (XO (XI (XO XH))))))) :: []))), (Zpos (XI
+    (XO (XO (XI (XO (XI (XO (XI (XI (XI (XI (XI (XI (XI (XI
+    XH))))))))))))))))) :: ((((Zpos (XI (XO (XI (XI (XO (XO
+    XH))))))) :: ((Zpos (XI (XI (XO (XI (XO (XO XH))))))) :: ((Zpos (XI (XO
+    (XO (XI (XO (XO XH))))))) :: ((Zpos (XO (XO (XI (XO (XO
+    XH)))))) :: [])))), (Zpos (XI (XI (XO (XI (XO (XI (XO (XI (XI (XI (XI (XI
+    (XI (XI (XI XH))))))))))))))))) :: ((((Zpos (XI (XO (XI (XI (XO (XO
+    XH))))))) :: ((Zpos (XI (XI (XO (XI (XO (XO XH))))))) :: ((Zpos (XI (XI
+    (XO (XO (XI (XO XH))))))) :: ((Zpos (XO (XO (XI (XO (XO
+    XH)))))) :: [])))), (Zpos (XO (XO (XI (XI (XO (XI (XO (XI (XI (XI (XI (XI
+    (XI (XI (XI XH))))))))))))))))) :: ((((Zpos (XO (XO (XI (XI (XO (XO
+    XH))))))) :: ((Zpos (XI (XI (XI (XI (XO (XO XH))))))) :: ((Zpos (XI (XI
+    (XO (XO (XO (XO XH))))))) :: []))), (Zpos (XO (XI (XI (XI (XO (XI (XO (XI
+    (XI (XI (XI (XI (XI (XI (XI XH))))))))))))))))) :: ((((Zpos (XO (XO (XI
+    (XI (XO (XO XH))))))) :: ((Zpos (XI (XI (XI (XI (XO (XO
+    XH))))))) :: ((Zpos (XO (XI (XI (XO (XO (XO XH))))))) :: []))), (Zpos (XI
+    (XI (XI (XI (XO (XI (XO (XI (XI (XI (XI (XI (XI (XI (XI
+    XH))))))))))))))))) :: ((((Zpos (XI (XI (XO (XO (XI (XO
+    XH))))))) :: ((Zpos (XO (XO (XO (XO (XI (XO XH))))))) :: ((Zpos (XI (XO
+    (XO (XO (XO (XO XH))))))) :: ((Zpos (XI (XI (XO (XO (XO (XO
+    XH))))))) :: ((Zpos (XI (XO (XI (XO (XO (XO XH))))))) :: ((Zpos (XO (XO
+    (XI (XO (XO XH)))))) :: [])))))), (Zpos (XO (XO (XO (XO (XI (XI (XO (XI
+    (XI (XI (XI (XI (XI (XI (XI XH))))))))))))))))) :: ((((Zpos (XI (XI (XO
+    (XO (XI (XO XH))))))) :: ((Zpos (XO (XO (XI (XO (XI (XO
+    XH))))))) :: ((Zpos (XO (XI (XO (XO (XI (XO XH))))))) :: ((Zpos (XI (XO
+    (XO (XI (XO (XO XH))))))) :: ((Zpos (XO (XI (XI (XI (XO (XO
+    XH))))))) :: ((Zpos (XI (XI (XI (XO (XO (XO XH))))))) :: ((Zpos (XO (XO
+    (XI (XO (XO XH)))))) :: []))))))), (Zpos (XI (XO (XO (XO (XI (XI (XO (XI
+    (XI (XI (XI (XI (XI (XI (XI XH))))))))))))))))) :: ((((Zpos (XO (XO (XI
+    (XO (XO (XO XH))))))) :: ((Zpos (XI (XI (XO (XO (XI (XO
+    XH))))))) :: ((Zpos (XI (XI (XO (XI (XO (XO XH))))))) :: ((Zpos (XI (XO
+    (XO (XI (XO (XO XH))))))) :: ((Zpos (XO (XO (XI (XO (XO
+    XH)))))) :: []))))), (Zpos (XO (XI (XO (XO (XI (XI (XO (XI (XI (XI (XI
+    (XI (XI (XI (XI
+    XH))))))))))))))))) :: [])))))))))))))))))))))))))))))))))))))))))))))))))))))))))))))))))))))))))))))))))))))))))))))))))))))))))))))))))))))))))))))))))))))))))))))))))))))))
+
+(** val require_colon : z list list **)
+
+let require_colon =
+  ((Zpos (XI (XO (XI (XO (XO (XO XH))))))) :: ((Zpos (XO (XO (XI (XI (XO (XO
+    XH))))))) :: ((Zpos (XI (XI (XO (XO (XI (XO XH))))))) :: ((Zpos (XI (XO
+    (XI (XO (XO (XO XH))))))) :: [])))) :: []
+
+(** val special_chars : z list **)
+
+let special_chars =
+  (Zpos (XO (XI (XI (XI (XO XH)))))) :: ((Zpos (XO (XO (XI (XI (XO
+    XH)))))) :: ((Zpos (XO (XO (XO (XI (XO XH)))))) :: ((Zpos (XI (XO (XO (XI
+    (XO XH)))))) :: ((Zpos (XO (XI (XO (XI (XI XH)))))) :: ((Zpos (XI (XI (XO
+    (XI (XI XH)))))) :: ((Zpos (XO (XO (XO (XO (XO XH)))))) :: []))))))
+
+(** val program_base : z **)
+
+let program_base =
+  Zpos (XO (XO (XI (XO (XO (XI (XO (XI (XI (XO (XI (XO (XO XH)))))))))))))
+
+(** val conv_u16 : z -> z list **)
+
+let conv_u16 value =
+  (Z.coq_land (Z.div value (Zpos (XO (XO (XO (XO (XO (XO (XO (XO XH))))))))))
+    (Zpos (XI (XI (XI (XI (XI (XI (XI XH))))))))) :: ((Z.coq_land value (Zpos
+                                                        (XI (XI (XI (XI (XI
+                                                        (XI (XI XH))))))))) :: [])
+
+(** val tok_u8 : z -> z list **)
+
+let tok_u8 value =
+  (Z.coq_land value (Zpos (XI (XI (XI (XI (XI (XI (XI XH))))))))) :: []
+
+(** val tok_u16 : z -> z list **)
+
+let tok_u16 value =
+  (Z.coq_land (Z.div value (Zpos (XO (XO (XO (XO (XO (XO (XO (XO XH))))))))))
+    (Zpos (XI (XI (XI (XI (XI (XI (XI XH))))))))) :: ((Z.coq_land value (Zpos
+                                                        (XI (XI (XI (XI (XI
+                                                        (XI (XI XH))))))))) :: [])
+
+(** val bytes_from_uint : z -> z list **)
+
+let bytes_from_uint value =
+  if Z.ltb value (Zpos (XO (XO (XO (XO (XO (XO (XO (XO XH)))))))))
+  then tok_u8 value
+  else tok_u16 value
+
+(** val colon_byte : z **)
+
+let colon_byte =
+  Zpos (XO (XI (XO (XI (XI XH)))))
+
+(** val ptr_step : z -> z list -> z **)
+
+let ptr_step pointerNext lineBuffer =
+  Z.add pointerNext (Z.add (zlen lineBuffer) (Zpos (XO (XO XH))))
+
+(** val prog_marker : z list **)
+
+let prog_marker =
+  (Zpos (XI (XI (XI (XI (XI (XI (XI XH)))))))) :: []
+
+(** val line_end : z list **)
+
+let line_end =
+  Z0 :: []
+
+(** val prog_end : z list **)
+
+let prog_end =
+  Z0 :: (Z0 :: [])
+
+(** val ascii_eol : z list **)
+
+let ascii_eol =
+  (Zpos (XI (XO (XI XH)))) :: []
+
+(** val ascii_keep : z -> bool **)
+
+let ascii_keep car =
+  Z.ltb car (Zpos (XO (XO (XO (XO (XO (XO (XO XH))))))))
+
+(** val b2l_eol : bool -> z list **)
+
+let b2l_eol = function
+| true -> (Zpos (XI (XO (XI XH)))) :: ((Zpos (XO (XI (XO XH)))) :: [])
+| false -> (Zpos (XO (XI (XO XH)))) :: []
+
+(** val b2l_is_sep : z -> bool **)
+
+let b2l_is_sep byte =
+  existsb (Z.eqb byte) ((Zpos (XI (XO (XI XH)))) :: ((Zpos (XO (XI (XO
+    XH)))) :: []))
+
+(** val b2l_flush_test : z -> bool **)
+
+let b2l_flush_test n0 =
+  Z.ltb Z0 n0
+
+(** val lookup : z list -> (z list * z) list -> z option **)
+
+let rec lookup k = function
+| [] -> None
+| p :: r -> let (k', v) = p in if zeqb_list k k' then Some v else lookup k r
+
+(** val tok_of : z list -> z option **)
+
+let tok_of k =
+  lookup k basic_tokens
+
+(** val needs_colon : z list -> bool **)
+
+let needs_colon k =
+  existsb (zeqb_list k) require_colon
+
+(** val utf8_char : z -> z list **)
+
+let utf8_char c =
+  if Z.ltb c (Zpos (XO (XO (XO (XO (XO (XO (XO XH))))))))
+  then c :: []
+  else if Z.ltb c (Zpos (XO (XO (XO (XO (XO (XO (XO (XO (XO (XO (XO
+            XH))))))))))))
+       then (Z.add (Zpos (XO (XO (XO (XO (XO (XO (XI XH))))))))
+              (Z.div c (Zpos (XO (XO (XO (XO (XO (XO XH))))))))) :: (
+              (Z.add (Zpos (XO (XO (XO (XO (XO (XO (XO XH))))))))
+                (Z.modulo c (Zpos (XO (XO (XO (XO (XO (XO XH))))))))) :: [])
+       else if Z.ltb c (Zpos (XO (XO (XO (XO (XO (XO (XO (XO (XO (XO (XO (XO
+                 (XO (XO (XO (XO XH)))))))))))))))))
+            then (Z.add (Zpos (XO (XO (XO (XO (XO (XI (XI XH))))))))
+                   (Z.div c (Zpos (XO (XO (XO (XO (XO (XO (XO (XO (XO (XO (XO
+                     (XO XH))))))))))))))) :: ((Z.add (Zpos (XO (XO (XO (XO
+                                                 (XO (XO (XO XH))))))))
+                                                 (Z.modulo
+                                                   (Z.div c (Zpos (XO (XO (XO
+                                                     (XO (XO (XO XH))))))))
+                                                   (Zpos (XO (XO (XO (XO (XO
+                                                   (XO XH))))))))) :: (
+                   (Z.add (Zpos (XO (XO (XO (XO (XO (XO (XO XH))))))))
+                     (Z.modulo c (Zpos (XO (XO (XO (XO (XO (XO XH))))))))) :: []))
+            else (Z.add (Zpos (XO (XO (XO (XO (XI (XI (XI XH))))))))
+                   (Z.div c (Zpos (XO (XO (XO (XO (XO (XO (XO (XO (XO (XO (XO
+                     (XO (XO (XO (XO (XO (XO (XO XH))))))))))))))))))))) :: (
+                   (Z.add (Zpos (XO (XO (XO (XO (XO (XO (XO XH))))))))
+                     (Z.modulo
+                       (Z.div c (Zpos (XO (XO (XO (XO (XO (XO (XO (XO (XO (XO
+                         (XO (XO XH)))))))))))))) (Zpos (XO (XO (XO (XO (XO
+                       (XO XH))))))))) :: ((Z.add (Zpos (XO (XO (XO (XO (XO
+                                             (XO (XO XH))))))))
+                                             (Z.modulo
+                                               (Z.div c (Zpos (XO (XO (XO (XO
+                                                 (XO (XO XH)))))))) (Zpos (XO
+                                               (XO (XO (XO (XO (XO XH))))))))) :: (
+                   (Z.add (Zpos (XO (XO (XO (XO (XO (XO (XO XH))))))))
+                     (Z.modulo c (Zpos (XO (XO (XO (XO (XO (XO XH))))))))) :: [])))
+
+(** val utf8 : z list -> z list **)
+
+let utf8 s =
+  flat_map utf8_char s
+
+type tctx = { t_done : z list; t_cand : z list; t_src : z list;
+              t_bucket : z list }
+
+(** val tctx0 : tctx **)
+
+let tctx0 =
+  { t_done = []; t_cand = []; t_src = []; t_bucket = [] }
+
+(** val commit : tctx -> tctx **)
+
+let commit t =
+  { t_done = (app t.t_done (app t.t_cand (utf8 t.t_bucket))); t_cand = [];
+    t_src = []; t_bucket = [] }
+
+(** val token_bytes : z list -> z -> z list **)
+
+let token_bytes k v =
+  app (if needs_colon k then tok_u8 colon_byte else []) (bytes_from_uint v)
+
+(** val append_plain : tctx -> z list -> z -> tctx **)
+
+let append_plain t src' c =
+  match tok_of (c :: []) with
+  | Some v ->
+    let t1 = commit t in
+    commit { t_done = t1.t_done; t_cand =
+      (app t1.t_cand (bytes_from_uint v)); t_src = t1.t_src; t_bucket =
+      t1.t_bucket }
+  | None ->
+    { t_done = t.t_done; t_cand = t.t_cand; t_src = src'; t_bucket =
+      (app t.t_bucket (c :: [])) }
+
+(** val append_token : tctx -> z -> tctx **)
+
+let append_token t c =
+  let src' = app t.t_src (c :: []) in
+  (match tok_of src' with
+   | Some v ->
+     { t_done = t.t_done; t_cand = (token_bytes src' v); t_src = src';
+       t_bucket = [] }
+   | None ->
+     (match tok_of t.t_bucket with
+      | Some v ->
+        let t1 =
+          commit { t_done = t.t_done; t_cand =
+            (app t.t_cand (token_bytes t.t_bucket v)); t_src = src';
+            t_bucket = [] }
+        in
+        (match tok_of (c :: []) with
+         | Some v1 ->
+           { t_done = t1.t_done; t_cand = (token_bytes (c :: []) v1); t_src =
+             (c :: []); t_bucket = [] }
+         | None ->
+           append_plain { t_done = t1.t_done; t_cand = []; t_src = (c :: []);
+             t_bucket = [] } (c :: []) c)
+      | None -> append_plain t src' c))
+
+(** val append_literal : tctx -> z -> tctx **)
+
+let append_literal t c =
+  { t_done = t.t_done; t_cand = t.t_cand; t_src = (app t.t_src (c :: []));
+    t_bucket = (app t.t_bucket (c :: [])) }
+
+(** val is_special : z -> bool **)
+
+let is_special c =
+  existsb (Z.eqb c) special_chars
+
+(** val is_one_char_token : z -> bool **)
+
+let is_one_char_token c =
+  match tok_of (c :: []) with
+  | Some _ -> true
+  | None -> false
+
+(** val parse_char : (tctx * bool) -> z -> tctx * bool **)
+
+let parse_char st c =
+  let (t, inlit) = st in
+  if Z.eqb c (Zpos (XO (XI (XO (XO (XO XH))))))
+  then let t1 = commit t in
+       let inlit' = negb inlit in
+       ((commit (if inlit' then append_literal t1 c else append_token t1 c)),
+       inlit')
+  else if inlit
+       then ((append_literal t c), inlit)
+       else if (||) (is_special c) (is_one_char_token c)
+            then ((commit (append_token t c)), inlit)
+            else ((append_token t (upper_char c)), inlit)
+
+(** val parse_line : z list -> z list **)
+
+let parse_line text =
+  (commit (fst (fold_left parse_char text (tctx0, false)))).t_done
+
+(** val extract_line_parts : z list -> (z * z list) res **)
+
+let extract_line_parts line = match line with
+| [] -> Err EValue
+| c :: r ->
+  if (&&) (is_digit19 c)
+       (negb (existsb (Z.eqb (Zpos (XO (XI (XO XH))))) (removelast line)))
+  then let ds = c :: (take_digits r) in
+       let rest = skipn (length ds) line in
+       let rest0 =
+         match rev rest with
+         | [] -> rest
+         | z0 :: t ->
+           (match z0 with
+            | Zpos p ->
+              (match p with
+               | XO p0 ->
+                 (match p0 with
+                  | XI p1 ->
+                    (match p1 with
+                     | XO p2 -> (match p2 with
+                                 | XH -> rev t
+                                 | _ -> rest)
+                     | _ -> rest)
+                  | _ -> rest)
+               | _ -> rest)
+            | _ -> rest)
+       in
+       let rest1 =
+         match rest0 with
+         | [] -> rest0
+         | z0 :: t ->
+           (match z0 with
+            | Zpos p ->
+              (match p with
+               | XO p0 ->
+                 (match p0 with
+                  | XO p1 ->
+                    (match p1 with
+                     | XO p2 ->
+                       (match p2 with
+                        | XO p3 ->
+                          (match p3 with
+                           | XO p4 -> (match p4 with
+                                       | XH -> t
+                                       | _ -> rest0)
+                           | _ -> rest0)
+                        | _ -> rest0)
+                     | _ -> rest0)
+                  | _ -> rest0)
+               | _ -> rest0)
+            | _ -> rest0)
+       in
+       Ok ((undec ds), rest1)
+  else Err EValue
+
+(** val convert_lines : z list list -> z -> z list -> z list res **)
+
+let rec convert_lines lines ptr body =
+  match lines with
+  | [] -> Ok body
+  | l :: r ->
+    (match extract_line_parts l with
+     | Ok a ->
+       let (num, text) = a in
+       let buf = app (parse_line text) line_end in
+       let ptr' = ptr_step ptr buf in
+       convert_lines r ptr'
+         (app body (app (conv_u16 ptr') (app (conv_u16 num) buf)))
+     | Err e -> Err e)
+
+(** val tokenize_program : z list list -> z list res **)
+
+let tokenize_program lines =
+  match convert_lines lines program_base [] with
+  | Ok body ->
+    let body0 = app body prog_end in
+    Ok (app prog_marker (app (conv_u16 (zlen body0)) body0))
+  | Err e -> Err e
+
+(** val ascii_line : z list -> z list **)
+
+let ascii_line l =
+  app (filter ascii_keep (rstrip_py l)) ascii_eol
+
+(** val lst_to_ascii : z list list -> z list **)
+
+let lst_to_ascii lines =
+  app ascii_eol (flat_map ascii_line lines)
+
+(** val b2l_loop : bool -> z list -> z -> z list **)
+
+let rec b2l_loop dos data n0 =
+  match data with
+  | [] -> if b2l_flush_test n0 then b2l_eol dos else []
+  | b :: r ->
+    if b2l_is_sep b
+    then app (if b2l_flush_test n0 then b2l_eol dos else [])
+           (b2l_loop dos r Z0)
+    else b :: (b2l_loop dos r (Z.add n0 (Zpos XH)))
+
+(** val ascii_to_lst : bool -> z list -> z list **)
+
+let ascii_to_lst dos data =
+  b2l_loop dos data Z0
+
+(** val mo5_vocabulary : (z list * z) list **)
+
+let mo5_vocabulary =
+  (((Zpos (XI (XO (XI (XO (XO (XO XH))))))) :: ((Zpos (XO (XI (XI (XI (XO (XO
+    XH))))))) :: ((Zpos (XO (XO (XI (XO (XO (XO XH))))))) :: []))), (Zpos (XO
+    (XO (XO (XO (XO (XO (XO XH))))))))) :: ((((Zpos (XO (XI (XI (XO (XO (XO
+    XH))))))) :: ((Zpos (XI (XI (XI (XI (XO (XO XH))))))) :: ((Zpos (XO (XI
+    (XO (XO (XI (XO XH))))))) :: []))), (Zpos (XI (XO (XO (XO (XO (XO (XO
+    XH))))))))) :: ((((Zpos (XO (XI (XI (XI (XO (XO XH))))))) :: ((Zpos (XI
+    (XO (XI (XO (XO (XO XH))))))) :: ((Zpos (XO (XO (XO (XI (XI (XO
+    XH))))))) :: ((Zpos (XO (XO (XI (XO (XI (XO XH))))))) :: [])))), (Zpos
+    (XO (XI (XO (XO (XO (XO (XO XH))))))))) :: ((((Zpos (XO (XO (XI (XO (XO
+    (XO XH))))))) :: ((Zpos (XI (XO (XO (XO (XO (XO XH))))))) :: ((Zpos (XO
+    (XO (XI (XO (XI (XO XH))))))) :: ((Zpos (XI (XO (XO (XO (XO (XO
+    XH))))))) :: [])))), (Zpos (XI (XI (XO (XO (XO (XO (XO
+    XH))))))))) :: ((((Zpos (XO (XO (XI (XO (XO (XO XH))))))) :: ((Zpos (XI
+    (XO (XO (XI (XO (XO XH))))))) :: ((Zpos (XI (XO (XI (XI (XO (XO
+    XH))))))) :: []))), (Zpos (XO (XO (XI (XO (XO (XO (XO
+    XH))))))))) :: ((((Zpos (XO (XI (XO (XO (XI (XO XH))))))) :: ((Zpos (XI
+    (XO (XI (XO (XO (XO XH))))))) :: ((Zpos (XI (XO (XO (XO (XO (XO
+    XH))))))) :: ((Zpos (XO (XO (XI (XO (XO (XO XH))))))) :: [])))), (Zpos
+    (XI (XO (XI (XO (XO (XO (XO XH))))))))) :: ((((Zpos (XI (XI (XI (XO (XO
+    (XO XH))))))) :: ((Zpos (XI (XI (XI (XI (XO (XO XH))))))) :: [])), (Zpos
+    (XI (XI (XI (XO (XO (XO (XO XH))))))))) :: ((((Zpos (XO (XI (XO (XO (XI
+    (XO XH))))))) :: ((Zpos (XI (XO (XI (XO (XI (XO XH))))))) :: ((Zpos (XO
+    (XI (XI (XI (XO (XO XH))))))) :: []))), (Zpos (XO (XO (XO (XI (XO (XO (XO
+    XH))))))))) :: ((((Zpos (XI (XO (XO (XI (XO (XO XH))))))) :: ((Zpos (XO
+    (XI (XI (XO (XO (XO XH))))))) :: [])), (Zpos (XI (XO (XO (XI (XO (XO (XO
+    XH))))))))) :: ((((Zpos (XO (XI (XO (XO (XI (XO XH))))))) :: ((Zpos (XI
+    (XO (XI (XO (XO (XO XH))))))) :: ((Zpos (XI (XI (XO (XO (XI (XO
+    XH))))))) :: ((Zpos (XO (XO (XI (XO (XI (XO XH))))))) :: ((Zpos (XI (XI
+    (XI (XI (XO (XO XH))))))) :: ((Zpos (XO (XI (XO (XO (XI (XO
+    XH))))))) :: ((Zpos (XI (XO (XI (XO (XO (XO XH))))))) :: []))))))), (Zpos
+    (XO (XI (XO (XI (XO (XO (XO XH))))))))) :: ((((Zpos (XO (XI (XO (XO (XI
+    (XO XH))))))) :: ((Zpos (XI (XO (XI (XO (XO (XO XH))))))) :: ((Zpos (XO
+    (XO (XI (XO (XI (XO XH))))))) :: ((Zpos (XI (XO (XI (XO (XI (XO
+    XH))))))) :: ((Zpos (XO (XI (XO (XO (XI (XO XH))))))) :: ((Zpos (XO (XI
+    (XI (XI (XO (XO XH))))))) :: [])))))), (Zpos (XI (XI (XO (XI (XO (XO (XO
+    XH))))))))) :: ((((Zpos (XO (XI (XO (XO (XI (XO XH))))))) :: ((Zpos (XI
+    (XO (XI (XO (XO (XO XH))))))) :: ((Zpos (XI (XO (XI (XI (XO (XO
+    XH))))))) :: []))), (Zpos (XO (XO (XI (XI (XO (XO (XO
+    XH))))))))) :: ((((Zpos (XI (XI (XI (XO (XO XH)))))) :: []), (Zpos (XI
+    (XO (XI (XI (XO (XO (XO XH))))))))) :: ((((Zpos (XI (XI (XO (XO (XI (XO
+    XH))))))) :: ((Zpos (XO (XO (XI (XO (XI (XO XH))))))) :: ((Zpos (XI (XI
+    (XI (XI (XO (XO XH))))))) :: ((Zpos (XO (XO (XO (XO (XI (XO
+    XH))))))) :: [])))), (Zpos (XO (XI (XI (XI (XO (XO (XO
+    XH))))))))) :: ((((Zpos (XI (XO (XI (XO (XO (XO XH))))))) :: ((Zpos (XO
+    (XO (XI (XI (XO (XO XH))))))) :: ((Zpos (XI (XI (XO (XO (XI (XO
+    XH))))))) :: ((Zpos (XI (XO (XI (XO (XO (XO XH))))))) :: [])))), (Zpos
+    (XI (XI (XI (XI (XO (XO (XO XH))))))))) :: ((((Zpos (XO (XO (XI (XO (XI
+    (XO XH))))))) :: ((Zpos (XO (XI (XO (XO (XI (XO XH))))))) :: ((Zpos (XI
+    (XI (XI (XI (XO (XO XH))))))) :: ((Zpos (XO (XI (XI (XI (XO (XO
+    XH))))))) :: [])))), (Zpos (XO (XO (XO (XO (XI (XO (XO
+    XH))))))))) :: ((((Zpos (XO (XO (XI (XO (XI (XO XH))))))) :: ((Zpos (XO
+    (XI (XO (XO (XI (XO XH))))))) :: ((Zpos (XI (XI (XI (XI (XO (XO
+    XH))))))) :: ((Zpos (XO (XI (XI (XO (XO (XO XH))))))) :: ((Zpos (XO (XI
+    (XI (XO (XO (XO XH))))))) :: []))))), (Zpos (XI (XO (XO (XO (XI (XO (XO
+    XH))))))))) :: ((((Zpos (XO (XO (XI (XO (XO (XO XH))))))) :: ((Zpos (XI
+    (XO (XI (XO (XO (XO XH))))))) :: ((Zpos (XO (XI (XI (XO (XO (XO
+    XH))))))) :: ((Zpos (XI (XI (XO (XO (XI (XO XH))))))) :: ((Zpos (XO (XO
+    (XI (XO (XI (XO XH))))))) :: ((Zpos (XO (XI (XO (XO (XI (XO
+    XH))))))) :: [])))))), (Zpos (XO (XI (XO (XO (XI (XO (XO
+    XH))))))))) :: ((((Zpos (XO (XO (XI (XO (XO (XO XH))))))) :: ((Zpos (XI
+    (XO (XI (XO (XO (XO XH))))))) :: ((Zpos (XO (XI (XI (XO (XO (XO
+    XH))))))) :: ((Zpos (XI (XO (XO (XI (XO (XO XH))))))) :: ((Zpos (XO (XI
+    (XI (XI (XO (XO XH))))))) :: ((Zpos (XO (XO (XI (XO (XI (XO
+    XH))))))) :: [])))))), (Zpos (XI (XI (XO (XO (XI (XO (XO
+    XH))))))))) :: ((((Zpos (XO (XO (XI (XO (XO (XO XH))))))) :: ((Zpos (XI
+    (XO (XI (XO (XO (XO XH))))))) :: ((Zpos (XO (XI (XI (XO (XO (XO
+    XH))))))) :: ((Zpos (XI (XI (XO (XO (XI (XO XH))))))) :: ((Zpos (XO (XI
+    (XI (XI (XO (XO XH))))))) :: ((Zpos (XI (XI (XI (XO (XO (XO
+    XH))))))) :: [])))))), (Zpos (XO (XO (XI (XO (XI (XO (XO
+    XH))))))))) :: ((((Zpos (XI (XI (XI (XI (XO (XO XH))))))) :: ((Zpos (XO
+    (XI (XI (XI (XO (XO XH))))))) :: [])), (Zpos (XO (XI (XI (XO (XI (XO (XO
+    XH))))))))) :: ((((Zpos (XO (XO (XI (XO (XI (XO XH))))))) :: ((Zpos (XI
+    (XO (XI (XO (XI (XO XH))))))) :: ((Zpos (XO (XI (XI (XI (XO (XO
+    XH))))))) :: ((Zpos (XI (XO (XI (XO (XO (XO XH))))))) :: [])))), (Zpos
+    (XI (XI (XI (XO (XI (XO (XO XH))))))))) :: ((((Zpos (XI (XO (XI (XO (XO
+    (XO XH))))))) :: ((Zpos (XO (XI (XO (XO (XI (XO XH))))))) :: ((Zpos (XO
+    (XI (XO (XO (XI (XO XH))))))) :: ((Zpos (XI (XI (XI (XI (XO (XO
+    XH))))))) :: ((Zpos (XO (XI (XO (XO (XI (XO XH))))))) :: []))))), (Zpos
+    (XO (XO (XO (XI (XI (XO (XO XH))))))))) :: ((((Zpos (XO (XI (XO (XO (XI
+    (XO XH))))))) :: ((Zpos (XI (XO (XI (XO (XO (XO XH))))))) :: ((Zpos (XI
+    (XI (XO (XO (XI (XO XH))))))) :: ((Zpos (XI (XO (XI (XO (XI (XO
+    XH))))))) :: ((Zpos (XI (XO (XI (XI (XO (XO XH))))))) :: ((Zpos (XI (XO
+    (XI (XO (XO (XO XH))))))) :: [])))))), (Zpos (XI (XO (XO (XI (XI (XO (XO
+    XH))))))))) :: ((((Zpos (XI (XO (XO (XO (XO (XO XH))))))) :: ((Zpos (XI
+    (XO (XI (XO (XI (XO XH))))))) :: ((Zpos (XO (XO (XI (XO (XI (XO
+    XH))))))) :: ((Zpos (XI (XI (XI (XI (XO (XO XH))))))) :: [])))), (Zpos
+    (XO (XI (XO (XI (XI (XO (XO XH))))))))) :: ((((Zpos (XO (XO (XI (XO (XO
+    (XO XH))))))) :: ((Zpos (XI (XO (XI (XO (XO (XO XH))))))) :: ((Zpos (XO
+    (XO (XI (XI (XO (XO XH))))))) :: ((Zpos (XI (XO (XI (XO (XO (XO
+    XH))))))) :: ((Zpos (XO (XO (XI (XO (XI (XO XH))))))) :: ((Zpos (XI (XO
+    (XI (XO (XO (XO XH))))))) :: [])))))), (Zpos (XI (XI (XO (XI (XI (XO (XO
+    XH))))))))) :: ((((Zpos (XO (XO (XI (XI (XO (XO XH))))))) :: ((Zpos (XI
+    (XI (XI (XI (XO (XO XH))))))) :: ((Zpos (XI (XI (XO (XO (XO (XO
+    XH))))))) :: ((Zpos (XI (XO (XO (XO (XO (XO XH))))))) :: ((Zpos (XO (XO
+    (XI (XO (XI (XO XH))))))) :: ((Zpos (XI (XO (XI (XO (XO (XO
+    XH))))))) :: [])))))), (Zpos (XO (XO (XI (XI (XI (XO (XO
+    XH))))))))) :: ((((Zpos (XI (XI (XO (XO (XO (XO XH))))))) :: ((Zpos (XO
+    (XO (XI (XI (XO (XO XH))))))) :: ((Zpos (XI (XI (XO (XO (XI (XO
+    XH))))))) :: []))), (Zpos (XI (XO (XI (XI (XI (XO (XO
+    XH))))))))) :: ((((Zpos (XI (XI (XO (XO (XO (XO XH))))))) :: ((Zpos (XI
+    (XI (XI (XI (XO (XO XH))))))) :: ((Zpos (XO (XI (XI (XI (XO (XO
+    XH))))))) :: ((Zpos (XI (XI (XO (XO (XI (XO XH))))))) :: ((Zpos (XI (XI
+    (XI (XI (XO (XO XH))))))) :: ((Zpos (XO (XO (XI (XI (XO (XO
+    XH))))))) :: ((Zpos (XI (XO (XI (XO (XO (XO XH))))))) :: []))))))), (Zpos
+    (XO (XI (XI (XI (XI (XO (XO XH))))))))) :: ((((Zpos (XO (XO (XO (XO (XI
+    (XO XH))))))) :: ((Zpos (XI (XI (XO (XO (XI (XO XH))))))) :: ((Zpos (XI
+    (XO (XI (XO (XO (XO XH))))))) :: ((Zpos (XO (XO (XI (XO (XI (XO
+    XH))))))) :: [])))), (Zpos (XI (XI (XI (XI (XI (XO (XO
+    XH))))))))) :: ((((Zpos (XI (XO (XI (XI (XO (XO XH))))))) :: ((Zpos (XI
+    (XI (XI (XI (XO (XO XH))))))) :: ((Zpos (XO (XO (XI (XO (XI (XO
+    XH))))))) :: ((Zpos (XI (XI (XI (XI (XO (XO XH))))))) :: ((Zpos (XO (XI
+    (XO (XO (XI (XO XH))))))) :: []))))), (Zpos (XO (XO (XO (XO (XO (XI (XO
+    XH))))))))) :: ((((Zpos (XI (XI (XO (XO (XI (XO XH))))))) :: ((Zpos (XI
+    (XI (XO (XI (XO (XO XH))))))) :: ((Zpos (XI (XO (XO (XI (XO (XO
+    XH))))))) :: ((Zpos (XO (XO (XO (XO (XI (XO XH))))))) :: ((Zpos (XO (XI
+    (XI (XO (XO (XO XH))))))) :: []))))), (Zpos (XI (XO (XO (XO (XO (XI (XO
+    XH))))))))) :: ((((Zpos (XI (XO (XI (XO (XO (XO XH))))))) :: ((Zpos (XO
+    (XO (XO (XI (XI (XO XH))))))) :: ((Zpos (XI (XO (XI (XO (XO (XO
+    XH))))))) :: ((Zpos (XI (XI (XO (XO (XO (XO XH))))))) :: [])))), (Zpos
+    (XO (XI (XO (XO (XO (XI (XO XH))))))))) :: ((((Zpos (XO (XI (XO (XO (XO
+    (XO XH))))))) :: ((Zpos (XI (XO (XI (XO (XO (XO XH))))))) :: ((Zpos (XI
+    (XO (XI (XO (XO (XO XH))))))) :: ((Zpos (XO (XO (XO (XO (XI (XO
+    XH))))))) :: [])))), (Zpos (XI (XI (XO (XO (XO (XI (XO
+    XH))))))))) :: ((((Zpos (XI (XI (XO (XO (XO (XO XH))))))) :: ((Zpos (XI
+    (XI (XI (XI (XO (XO XH))))))) :: ((Zpos (XO (XO (XI (XI (XO (XO
+    XH))))))) :: ((Zpos (XI (XI (XI (XI (XO (XO XH))))))) :: ((Zpos (XO (XI
+    (XO (XO (XI (XO XH))))))) :: []))))), (Zpos (XO (XO (XI (XO (XO (XI (XO
+    XH))))))))) :: ((((Zpos (XO (XO (XI (XI (XO (XO XH))))))) :: ((Zpos (XI
+    (XO (XO (XI (XO (XO XH))))))) :: ((Zpos (XO (XI (XI (XI (XO (XO
+    XH))))))) :: ((Zpos (XI (XO (XI (XO (XO (XO XH))))))) :: [])))), (Zpos
+    (XI (XO (XI (XO (XO (XI (XO XH))))))))) :: ((((Zpos (XO (XI (XO (XO (XO
+    (XO XH))))))) :: ((Zpos (XI (XI (XI (XI (XO (XO XH))))))) :: ((Zpos (XO
+    (XO (XO (XI (XI (XO XH))))))) :: []))), (Zpos (XO (XI (XI (XO (XO (XI (XO
+    XH))))))))) :: ((((Zpos (XI (XO (XO (XO (XO (XO XH))))))) :: ((Zpos (XO
+    (XO (XI (XO (XI (XO XH))))))) :: ((Zpos (XO (XO (XI (XO (XI (XO
+    XH))))))) :: ((Zpos (XO (XI (XO (XO (XI (XO XH))))))) :: ((Zpos (XO (XI
+    (XO (XO (XO (XO XH))))))) :: []))))), (Zpos (XO (XO (XO (XI (XO (XI (XO
+    XH))))))))) :: ((((Zpos (XO (XO (XI (XO (XO (XO XH))))))) :: ((Zpos (XI
+    (XO (XI (XO (XO (XO XH))))))) :: ((Zpos (XO (XI (XI (XO (XO (XO
+    XH))))))) :: []))), (Zpos (XI (XO (XO (XI (XO (XI (XO
+    XH))))))))) :: ((((Zpos (XO (XO (XO (XO (XI (XO XH))))))) :: ((Zpos (XI
+    (XI (XI (XI (XO (XO XH))))))) :: ((Zpos (XI (XI (XO (XI (XO (XO
+    XH))))))) :: ((Zpos (XI (XO (XI (XO (XO (XO XH))))))) :: [])))), (Zpos
+    (XO (XI (XO (XI (XO (XI (XO XH))))))))) :: ((((Zpos (XO (XO (XO (XO (XI
+    (XO XH))))))) :: ((Zpos (XO (XI (XO (XO (XI (XO XH))))))) :: ((Zpos (XI
+    (XO (XO (XI (XO (XO XH))))))) :: ((Zpos (XO (XI (XI (XI (XO (XO
+    XH))))))) :: ((Zpos (XO (XO (XI (XO (XI (XO XH))))))) :: []))))), (Zpos
+    (XI (XI (XO (XI (XO (XI (XO XH))))))))) :: ((((Zpos (XI (XI (XO (XO (XO
+    (XO XH))))))) :: ((Zpos (XI (XI (XI (XI (XO (XO XH))))))) :: ((Zpos (XO
+    (XI (XI (XI (XO (XO XH))))))) :: ((Zpos (XO (XO (XI (XO (XI (XO
+    XH))))))) :: [])))), (Zpos (XO (XO (XI (XI (XO (XI (XO
+    XH))))))))) :: ((((Zpos (XO (XO (XI (XI (XO (XO XH))))))) :: ((Zpos (XI
+    (XO (XO (XI (XO (XO XH))))))) :: ((Zpos (XI (XI (XO (XO (XI (XO
+    XH))))))) :: ((Zpos (XO (XO (XI (XO (XI (XO XH))))))) :: [])))), (Zpos
+    (XI (XO (XI (XI (XO (XI (XO XH))))))))) :: ((((Zpos (XI (XI (XO (XO (XO
+    (XO XH))))))) :: ((Zpos (XO (XO (XI (XI (XO (XO XH))))))) :: ((Zpos (XI
+    (XO (XI (XO (XO (XO XH))))))) :: ((Zpos (XI (XO (XO (XO (XO (XO
+    XH))))))) :: ((Zpos (XO (XI (XO (XO (XI (XO XH))))))) :: []))))), (Zpos
+    (XO (XI (XI (XI (XO (XI (XO XH))))))))) :: ((((Zpos (XO (XO (XI (XO (XO
+    (XO XH))))))) :: ((Zpos (XI (XI (XI (XI (XO (XO XH))))))) :: ((Zpos (XI
+    (XI (XO (XO (XI (XO XH))))))) :: []))), (Zpos (XI (XI (XI (XI (XO (XI (XO
+    XH))))))))) :: ((((Zpos (XO (XI (XI (XI (XO (XO XH))))))) :: ((Zpos (XI
+    (XO (XI (XO (XO (XO XH))))))) :: ((Zpos (XI (XI (XI (XO (XI (XO
+    XH))))))) :: []))), (Zpos (XI (XO (XO (XO (XI (XI (XO
+    XH))))))))) :: ((((Zpos (XI (XI (XO (XO (XI (XO XH))))))) :: ((Zpos (XI
+    (XO (XO (XO (XO (XO XH))))))) :: ((Zpos (XO (XI (XI (XO (XI (XO
+    XH))))))) :: ((Zpos (XI (XO (XI (XO (XO (XO XH))))))) :: [])))), (Zpos
+    (XO (XI (XO (XO (XI (XI (XO XH))))))))) :: ((((Zpos (XO (XO (XI (XI (XO
+    (XO XH))))))) :: ((Zpos (XI (XI (XI (XI (XO (XO XH))))))) :: ((Zpos (XI
+    (XO (XO (XO (XO (XO XH))))))) :: ((Zpos (XO (XO (XI (XO (XO (XO
+    XH))))))) :: [])))), (Zpos (XI (XI (XO (XO (XI (XI (XO
+    XH))))))))) :: ((((Zpos (XI (XO (XI (XI (XO (XO XH))))))) :: ((Zpos (XI
+    (XO (XI (XO (XO (XO XH))))))) :: ((Zpos (XO (XI (XO (XO (XI (XO
+    XH))))))) :: ((Zpos (XI (XI (XI (XO (XO (XO XH))))))) :: ((Zpos (XI (XO
+    (XI (XO (XO (XO XH))))))) :: []))))), (Zpos (XO (XO (XI (XO (XI (XI (XO
+    XH))))))))) :: ((((Zpos (XI (XI (XI (XI (XO (XO XH))))))) :: ((Zpos (XO
+    (XO (XO (XO (XI (XO XH))))))) :: ((Zpos (XI (XO (XI (XO (XO (XO
+    XH))))))) :: ((Zpos (XO (XI (XI (XI (XO (XO XH))))))) :: [])))), (Zpos
+    (XI (XO (XI (XO (XI (XI (XO XH))))))))) :: ((((Zpos (XI (XI (XO (XO (XO
+    (XO XH))))))) :: ((Zpos (XO (XO (XI (XI (XO (XO XH))))))) :: ((Zpos (XI
+    (XI (XI (XI (XO (XO XH))))))) :: ((Zpos (XI (XI (XO (XO (XI (XO
+    XH))))))) :: ((Zpos (XI (XO (XI (XO (XO (XO XH))))))) :: []))))), (Zpos
+    (XO (XI (XI (XO (XI (XI (XO XH))))))))) :: ((((Zpos (XI (XO (XO (XI (XO
+    (XO XH))))))) :: ((Zpos (XO (XI (XI (XI (XO (XO XH))))))) :: ((Zpos (XO
+    (XO (XO (XO (XI (XO XH))))))) :: ((Zpos (XI (XO (XI (XO (XO (XO
+    XH))))))) :: ((Zpos (XO (XI (XI (XI (XO (XO XH))))))) :: []))))), (Zpos
+    (XI (XI (XI (XO (XI (XI (XO XH))))))))) :: ((((Zpos (XO (XO (XO (XO (XI
+    (XO XH))))))) :: ((Zpos (XI (XO (XI (XO (XO (XO XH))))))) :: ((Zpos (XO
+    (XI (XI (XI (XO (XO XH))))))) :: []))), (Zpos (XO (XO (XO (XI (XI (XI (XO
+    XH))))))))) :: ((((Zpos (XO (XO (XO (XO (XI (XO XH))))))) :: ((Zpos (XO
+    (XO (XI (XI (XO (XO XH))))))) :: ((Zpos (XI (XO (XO (XO (XO (XO
+    XH))))))) :: ((Zpos (XI (XO (XO (XI (XI (XO XH))))))) :: [])))), (Zpos
+    (XI (XO (XO (XI (XI (XI (XO XH))))))))) :: ((((Zpos (XO (XO (XI (XO (XI
+    (XO XH))))))) :: ((Zpos (XI (XO (XO (XO (XO (XO XH))))))) :: ((Zpos (XO
+    (XI (XO (XO (XO (XO XH))))))) :: []))), (Zpos (XO (XI (XO (XI (XI (XI (XO
+    XH))))))))) :: ((((Zpos (XO (XO (XI (XO (XI (XO XH))))))) :: ((Zpos (XI
+    (XI (XI (XI (XO (XO XH))))))) :: [])), (Zpos (XI (XI (XO (XI (XI (XI (XO
+    XH))))))))) :: ((((Zpos (XI (XI (XO (XO (XI (XO XH))))))) :: ((Zpos (XI
+    (XO (XI (XO (XI (XO XH))))))) :: ((Zpos (XO (XI (XO (XO (XO (XO
+    XH))))))) :: []))), (Zpos (XO (XO (XI (XI (XI (XI (XO
+    XH))))))))) :: ((((Zpos (XO (XI (XI (XO (XO (XO XH))))))) :: ((Zpos (XO
+    (XI (XI (XI (XO (XO XH))))))) :: ((Zpos (XI (XI (XO (XO (XO (XO
+    XH))))))) :: []))), (Zpos (XI (XO (XI (XI (XI (XI (XO
+    XH))))))))) :: ((((Zpos (XI (XI (XO (XO (XI (XO XH))))))) :: ((Zpos (XO
+    (XO (XO (XO (XI (XO XH))))))) :: ((Zpos (XI (XI (XO (XO (XO (XO
+    XH))))))) :: []))), (Zpos (XO (XI (XI (XI (XI (XI (XO
+    XH))))))))) :: ((((Zpos (XI (XO (XI (XO (XI (XO XH))))))) :: ((Zpos (XI
+    (XI (XO (XO (XI (XO XH))))))) :: ((Zpos (XI (XO (XO (XI (XO (XO
+    XH))))))) :: ((Zpos (XO (XI (XI (XI (XO (XO XH))))))) :: ((Zpos (XI (XI
+    (XI (XO (XO (XO XH))))))) :: []))))), (Zpos (XI (XI (XI (XI (XI (XI (XO
+    XH))))))))) :: ((((Zpos (XI (XO (XI (XO (XI (XO XH))))))) :: ((Zpos (XI
+    (XI (XO (XO (XI (XO XH))))))) :: ((Zpos (XO (XI (XO (XO (XI (XO
+    XH))))))) :: []))), (Zpos (XO (XO (XO (XO (XO (XO (XI
+    XH))))))))) :: ((((Zpos (XI (XO (XI (XO (XO (XO XH))))))) :: ((Zpos (XO
+    (XI (XO (XO (XI (XO XH))))))) :: ((Zpos (XO (XO (XI (XI (XO (XO
+    XH))))))) :: []))), (Zpos (XI (XO (XO (XO (XO (XO (XI
+    XH))))))))) :: ((((Zpos (XI (XO (XI (XO (XO (XO XH))))))) :: ((Zpos (XO
+    (XI (XO (XO (XI (XO XH))))))) :: ((Zpos (XO (XI (XO (XO (XI (XO
+    XH))))))) :: []))), (Zpos (XO (XI (XO (XO (XO (XO (XI
+    XH))))))))) :: ((((Zpos (XI (XI (XI (XI (XO (XO XH))))))) :: ((Zpos (XO
+    (XI (XI (XO (XO (XO XH))))))) :: ((Zpos (XO (XI (XI (XO (XO (XO
+    XH))))))) :: []))), (Zpos (XI (XI (XO (XO (XO (XO (XI
+    XH))))))))) :: ((((Zpos (XO (XO (XI (XO (XI (XO XH))))))) :: ((Zpos (XO
+    (XO (XO (XI (XO (XO XH))))))) :: ((Zpos (XI (XO (XI (XO (XO (XO
+    XH))))))) :: ((Zpos (XO (XI (XI (XI (XO (XO XH))))))) :: [])))), (Zpos
+    (XO (XO (XI (XO (XO (XO (XI XH))))))))) :: ((((Zpos (XO (XI (XI (XI (XO
+    (XO XH))))))) :: ((Zpos (XI (XI (XI (XI (XO (XO XH))))))) :: ((Zpos (XO
+    (XO (XI (XO (XI (XO XH))))))) :: []))), (Zpos (XI (XO (XI (XO (XO (XO (XI
+    XH))))))))) :: ((((Zpos (XI (XI (XO (XO (XI (XO XH))))))) :: ((Zpos (XO
+    (XO (XI (XO (XI (XO XH))))))) :: ((Zpos (XI (XO (XI (XO (XO (XO
+    XH))))))) :: ((Zpos (XO (XO (XO (XO (XI (XO XH))))))) :: [])))), (Zpos
+    (XO (XI (XI (XO (XO (XO (XI XH))))))))) :: ((((Zpos (XI (XI (XO (XI (XO
+    XH)))))) :: []), (Zpos (XI (XI (XI (XO (XO (XO (XI
+    XH))))))))) :: ((((Zpos (XI (XO (XI (XI (XO XH)))))) :: []), (Zpos (XO
+    (XO (XO (XI (XO (XO (XI XH))))))))) :: ((((Zpos (XO (XI (XO (XI (XO
+    XH)))))) :: []), (Zpos (XI (XO (XO (XI (XO (XO (XI
+    XH))))))))) :: ((((Zpos (XI (XI (XI (XI (XO XH)))))) :: []), (Zpos (XO
+    (XI (XO (XI (XO (XO (XI XH))))))))) :: ((((Zpos (XO (XI (XI (XI (XI (XO
+    XH))))))) :: []), (Zpos (XI (XI (XO (XI (XO (XO (XI
+    XH))))))))) :: ((((Zpos (XI (XO (XO (XO (XO (XO XH))))))) :: ((Zpos (XO
+    (XI (XI (XI (XO (XO XH))))))) :: ((Zpos (XO (XO (XI (XO (XO (XO
+    XH))))))) :: []))), (Zpos (XO (XO (XI (XI (XO (XO (XI
+    XH))))))))) :: ((((Zpos (XI (XI (XI (XI (XO (XO XH))))))) :: ((Zpos (XO
+    (XI (XO (XO (XI (XO XH))))))) :: [])), (Zpos (XI (XO (XI (XI (XO (XO (XI
+    XH))))))))) :: ((((Zpos (XO (XO (XO (XI (XI (XO XH))))))) :: ((Zpos (XI
+    (XI (XI (XI (XO (XO XH))))))) :: ((Zpos (XO (XI (XO (XO (XI (XO
+    XH))))))) :: []))), (Zpos (XO (XI (XI (XI (XO (XO (XI
+    XH))))))))) :: ((((Zpos (XI (XO (XI (XO (XO (XO XH))))))) :: ((Zpos (XI
+    (XO (XO (XO (XI (XO XH))))))) :: ((Zpos (XO (XI (XI (XO (XI (XO
+    XH))))))) :: []))), (Zpos (XI (XI (XI (XI (XO (XO (XI
+    XH))))))))) :: ((((Zpos (XI (XO (XO (XI (XO (XO XH))))))) :: ((Zpos (XI
+    (XO (XI (XI (XO (XO XH))))))) :: ((Zpos (XO (XO (XO (XO (XI (XO
+    XH))))))) :: []))), (Zpos (XO (XO (XO (XO (XI (XO (XI
+    XH))))))))) :: ((((Zpos (XI (XO (XI (XI (XO (XO XH))))))) :: ((Zpos (XI
+    (XI (XI (XI (XO (XO XH))))))) :: ((Zpos (XO (XO (XI (XO (XO (XO
+    XH))))))) :: []))), (Zpos (XI (XO (XO (XO (XI (XO (XI
+    XH))))))))) :: ((((Zpos (XO (XI (XI (XI (XI XH)))))) :: []), (Zpos (XI
+    (XI (XO (XO (XI (XO (XI XH))))))))) :: ((((Zpos (XI (XO (XI (XI (XI
+    XH)))))) :: []), (Zpos (XO (XO (XI (XO (XI (XO (XI
+    XH))))))))) :: ((((Zpos (XO (XO (XI (XI (XI XH)))))) :: []), (Zpos (XI
+    (XO (XI (XO (XI (XO (XI XH))))))))) :: ((((Zpos (XO (XO (XI (XO (XO (XO
+    XH))))))) :: ((Zpos (XI (XI (XO (XO (XI (XO XH))))))) :: ((Zpos (XI (XI
+    (XO (XI (XO (XO XH))))))) :: ((Zpos (XI (XO (XO (XI (XO (XO
+    XH))))))) :: ((Zpos (XO (XI (XI (XI (XO (XO XH))))))) :: []))))), (Zpos
+    (XO (XI (XI (XO (XI (XO (XI XH))))))))) :: ((((Zpos (XO (XO (XI (XO (XO
+    (XO XH))))))) :: ((Zpos (XI (XI (XO (XO (XI (XO XH))))))) :: ((Zpos (XI
+    (XI (XO (XI (XO (XO XH))))))) :: ((Zpos (XI (XI (XI (XI (XO (XO
+    XH))))))) :: ((Zpos (XO (XO (XI (XO (XO XH)))))) :: []))))), (Zpos (XI
+    (XI (XI (XO (XI (XO (XI XH))))))))) :: ((((Zpos (XI (XI (XO (XI (XO (XO
+    XH))))))) :: ((Zpos (XI (XO (XO (XI (XO (XO XH))))))) :: ((Zpos (XO (XO
+    (XI (XI (XO (XO XH))))))) :: ((Zpos (XO (XO (XI (XI (XO (XO
+    XH))))))) :: [])))), (Zpos (XO (XO (XO (XI (XI (XO (XI
+    XH))))))))) :: ((((Zpos (XO (XI (XI (XI (XO (XO XH))))))) :: ((Zpos (XI
+    (XO (XO (XO (XO (XO XH))))))) :: ((Zpos (XI (XO (XI (XI (XO (XO
+    XH))))))) :: ((Zpos (XI (XO (XI (XO (XO (XO XH))))))) :: [])))), (Zpos
+    (XI (XO (XO (XI (XI (XO (XI XH))))))))) :: ((((Zpos (XO (XI (XI (XO (XO
+    (XO XH))))))) :: ((Zpos (XI (XO (XO (XI (XO (XO XH))))))) :: ((Zpos (XI
+    (XO (XI (XO (XO (XO XH))))))) :: ((Zpos (XO (XO (XI (XI (XO (XO
+    XH))))))) :: ((Zpos (XO (XO (XI (XO (XO (XO XH))))))) :: []))))), (Zpos
+    (XO (XI (XO (XI (XI (XO (XI XH))))))))) :: ((((Zpos (XO (XO (XI (XI (XO
+    (XO XH))))))) :: ((Zpos (XI (XI (XO (XO (XI (XO XH))))))) :: ((Zpos (XI
+    (XO (XI (XO (XO (XO XH))))))) :: ((Zpos (XO (XO (XI (XO (XI (XO
+    XH))))))) :: [])))), (Zpos (XI (XI (XO (XI (XI (XO (XI
+    XH))))))))) :: ((((Zpos (XO (XI (XO (XO (XI (XO XH))))))) :: ((Zpos (XI
+    (XI (XO (XO (XI (XO XH))))))) :: ((Zpos (XI (XO (XI (XO (XO (XO
+    XH))))))) :: ((Zpos (XO (XO (XI (XO (XI (XO XH))))))) :: [])))), (Zpos
+    (XO (XO (XI (XI (XI (XO (XI XH))))))))) :: ((((Zpos (XO (XO (XO (XO (XI
+    (XO XH))))))) :: ((Zpos (XI (XO (XI (XO (XI (XO XH))))))) :: ((Zpos (XO
+    (XO (XI (XO (XI (XO XH))))))) :: []))), (Zpos (XI (XO (XI (XI (XI (XO (XI
+    XH))))))))) :: ((((Zpos (XI (XI (XI (XO (XO (XO XH))))))) :: ((Zpos (XI
+    (XO (XI (XO (XO (XO XH))))))) :: ((Zpos (XO (XO (XI (XO (XI (XO
+    XH))))))) :: []))), (Zpos (XO (XI (XI (XI (XI (XO (XI
+    XH))))))))) :: ((((Zpos (XO (XI (XI (XO (XI (XO XH))))))) :: ((Zpos (XI
+    (XO (XI (XO (XO (XO XH))))))) :: ((Zpos (XO (XI (XO (XO (XI (XO
+    XH))))))) :: ((Zpos (XI (XO (XO (XI (XO (XO XH))))))) :: ((Zpos (XO (XI
+    (XI (XO (XO (XO XH))))))) :: ((Zpos (XI (XO (XO (XI (XI (XO
+    XH))))))) :: [])))))), (Zpos (XI (XI (XI (XI (XI (XO (XI
+    XH))))))))) :: ((((Zpos (XO (XO (XI (XO (XO (XO XH))))))) :: ((Zpos (XI
+    (XO (XI (XO (XO (XO XH))))))) :: ((Zpos (XO (XI (XI (XO (XI (XO
+    XH))))))) :: ((Zpos (XI (XO (XO (XI (XO (XO XH))))))) :: ((Zpos (XI (XI
+    (XO (XO (XO (XO XH))))))) :: ((Zpos (XI (XO (XI (XO (XO (XO
+    XH))))))) :: [])))))), (Zpos (XO (XO (XO (XO (XO (XI (XI
+    XH))))))))) :: ((((Zpos (XO (XO (XI (XO (XO (XO XH))))))) :: ((Zpos (XI
+    (XO (XO (XI (XO (XO XH))))))) :: ((Zpos (XO (XI (XO (XO (XI (XO
+    XH))))))) :: []))), (Zpos (XI (XO (XO (XO (XO (XI (XI
+    XH))))))))) :: ((((Zpos (XO (XI (XI (XO (XO (XO XH))))))) :: ((Zpos (XI
+    (XO (XO (XI (XO (XO XH))))))) :: ((Zpos (XO (XO (XI (XI (XO (XO
+    XH))))))) :: ((Zpos (XI (XO (XI (XO (XO (XO XH))))))) :: ((Zpos (XI (XI
+    (XO (XO (XI (XO XH))))))) :: []))))), (Zpos (XO (XI (XO (XO (XO (XI (XI
+    XH))))))))) :: ((((Zpos (XI (XI (XI (XO (XI (XO XH))))))) :: ((Zpos (XO
+    (XI (XO (XO (XI (XO XH))))))) :: ((Zpos (XI (XO (XO (XI (XO (XO
+    XH))))))) :: ((Zpos (XO (XO (XI (XO (XI (XO XH))))))) :: ((Zpos (XI (XO
+    (XI (XO (XO (XO XH))))))) :: []))))), (Zpos (XI (XI (XO (XO (XO (XI (XI
+    XH))))))))) :: ((((Zpos (XI (XO (XI (XO (XI (XO XH))))))) :: ((Zpos (XO
+    (XI (XI (XI (XO (XO XH))))))) :: ((Zpos (XO (XO (XI (XI (XO (XO
+    XH))))))) :: ((Zpos (XI (XI (XI (XI (XO (XO XH))))))) :: ((Zpos (XI (XO
+    (XO (XO (XO (XO XH))))))) :: ((Zpos (XO (XO (XI (XO (XO (XO
+    XH))))))) :: [])))))), (Zpos (XO (XO (XI (XO (XO (XI (XI
+    XH))))))))) :: ((((Zpos (XO (XI (XO (XO (XO (XO XH))))))) :: ((Zpos (XI
+    (XO (XO (XO (XO (XO XH))))))) :: ((Zpos (XI (XI (XO (XO (XO (XO
+    XH))))))) :: ((Zpos (XI (XI (XO (XI (XO (XO XH))))))) :: ((Zpos (XI (XO
+    (XI (XO (XI (XO XH))))))) :: ((Zpos (XO (XO (XO (XO (XI (XO
+    XH))))))) :: [])))))), (Zpos (XI (XO (XI (XO (XO (XI (XI
+    XH))))))))) :: ((((Zpos (XI (XI (XO (XO (XO (XO XH))))))) :: ((Zpos (XI
+    (XI (XI (XI (XO (XO XH))))))) :: ((Zpos (XO (XO (XO (XO (XI (XO
+    XH))))))) :: ((Zpos (XI (XO (XO (XI (XI (XO XH))))))) :: [])))), (Zpos
+    (XO (XI (XI (XO (XO (XI (XI XH))))))))) :: ((((Zpos (XI (XI (XO (XO (XO
+    (XO XH))))))) :: ((Zpos (XI (XO (XO (XI (XO (XO XH))))))) :: ((Zpos (XO
+    (XI (XO (XO (XI (XO XH))))))) :: ((Zpos (XI (XI (XO (XO (XO (XO
+    XH))))))) :: ((Zpos (XO (XO (XI (XI (XO (XO XH))))))) :: ((Zpos (XI (XO
+    (XI (XO (XO (XO XH))))))) :: [])))))), (Zpos (XI (XI (XI (XO (XO (XI (XI
+    XH))))))))) :: ((((Zpos (XO (XO (XO (XO (XI (XO XH))))))) :: ((Zpos (XI
+    (XO (XO (XO (XO (XO XH))))))) :: ((Zpos (XI (XO (XO (XI (XO (XO
+    XH))))))) :: ((Zpos (XO (XI (XI (XI (XO (XO XH))))))) :: ((Zpos (XO (XO
+    (XI (XO (XI (XO XH))))))) :: []))))), (Zpos (XO (XO (XO (XI (XO (XI (XI
+    XH))))))))) :: ((((Zpos (XO (XO (XI (XO (XO (XO XH))))))) :: ((Zpos (XO
+    (XI (XO (XO (XI (XO XH))))))) :: ((Zpos (XI (XO (XO (XO (XO (XO
+    XH))))))) :: ((Zpos (XI (XI (XI (XO (XI (XO XH))))))) :: [])))), (Zpos
+    (XI (XO (XO (XI (XO (XI (XI XH))))))))) :: ((((Zpos (XO (XI (XO (XO (XI
+    (XO XH))))))) :: ((Zpos (XI (XO (XI (XO (XO (XO XH))))))) :: ((Zpos (XO
+    (XI (XI (XI (XO (XO XH))))))) :: ((Zpos (XI (XO (XI (XO (XI (XO
+    XH))))))) :: ((Zpos (XI (XO (XI (XI (XO (XO XH))))))) :: []))))), (Zpos
+    (XO (XI (XO (XI (XO (XI (XI XH))))))))) :: ((((Zpos (XI (XI (XO (XO (XI
+    (XO XH))))))) :: ((Zpos (XI (XI (XI (XO (XI (XO XH))))))) :: ((Zpos (XI
+    (XO (XO (XO (XO (XO XH))))))) :: ((Zpos (XO (XO (XO (XO (XI (XO
+    XH))))))) :: [])))), (Zpos (XI (XI (XO (XI (XO (XI (XI
+    XH))))))))) :: ((((Zpos (XI (XI (XO (XO (XI (XO XH))))))) :: ((Zpos (XI
+    (XI (XI (XO (XO (XO XH))))))) :: ((Zpos (XO (XI (XI (XI (XO (XO
+    XH))))))) :: []))), (Zpos (XO (XO (XO (XO (XO (XO (XO (XI (XI (XI (XI (XI
+    (XI (XI (XI XH))))))))))))))))) :: ((((Zpos (XI (XO (XO (XI (XO (XO
+    XH))))))) :: ((Zpos (XO (XI (XI (XI (XO (XO XH))))))) :: ((Zpos (XO (XO
+    (XI (XO (XI (XO XH))))))) :: []))), (Zpos (XI (XO (XO (XO (XO (XO (XO (XI
+    (XI (XI (XI (XI (XI (XI (XI XH))))))))))))))))) :: ((((Zpos (XI (XO (XO
+    (XO (XO (XO XH))))))) :: ((Zpos (XO (XO (XO (XO (XI (XO
+    XH))))))) :: ((Zpos (XI (XI (XO (XO (XI (XO XH))))))) :: []))), (Zpos (XO
+    (XI (XO (XO (XO (XO (XO (XI (XI (XI (XI (XI (XI (XI (XI
+    XH))))))))))))))))) :: ((((Zpos (XO (XI (XI (XO (XO (XO
+    XH))))))) :: ((Zpos (XO (XI (XO (XO (XI (XO XH))))))) :: ((Zpos (XI (XO
+    (XI (XO (XO (XO XH))))))) :: []))), (Zpos (XI (XI (XO (XO (XO (XO (XO (XI
+    (XI (XI (XI (XI (XI (XI (XI XH))))))))))))))))) :: ((((Zpos (XI (XI (XO
+    (XO (XI (XO XH))))))) :: ((Zpos (XI (XO (XO (XO (XI (XO
+    XH))))))) :: ((Zpos (XO (XO (XI (XI (XO (XO XH))))))) :: []))), (Zpos (XO
+    (XO (XI (XO (XO (XO (XO (XI (XI (XI (XI (XI (XI (XI (XI
+    XH))))))))))))))))) :: ((((Zpos (XO (XO (XI (XI (XO (XO
+    XH))))))) :: ((Zpos (XI (XI (XI (XI (XO (XO XH))))))) :: ((Zpos (XI (XI
+    (XI (XO (XO (XO XH))))))) :: []))), (Zpos (XI (XO (XI (XO (XO (XO (XO (XI
+    (XI (XI (XI (XI (XI (XI (XI XH))))))))))))))))) :: ((((Zpos (XI (XO (XI
+    (XO (XO (XO XH))))))) :: ((Zpos (XO (XO (XO (XI (XI (XO
+    XH))))))) :: ((Zpos (XO (XO (XO (XO (XI (XO XH))))))) :: []))), (Zpos (XO
+    (XI (XI (XO (XO (XO (XO (XI (XI (XI (XI (XI (XI (XI (XI
+    XH))))))))))))))))) :: ((((Zpos (XI (XI (XO (XO (XO (XO
+    XH))))))) :: ((Zpos (XI (XI (XI (XI (XO (XO XH))))))) :: ((Zpos (XI (XI
+    (XO (XO (XI (XO XH))))))) :: []))), (Zpos (XI (XI (XI (XO (XO (XO (XO (XI
+    (XI (XI (XI (XI (XI (XI (XI XH))))))))))))))))) :: ((((Zpos (XI (XI (XO
+    (XO (XI (XO XH))))))) :: ((Zpos (XI (XO (XO (XI (XO (XO
+    XH))))))) :: ((Zpos (XO (XI (XI (XI (XO (XO XH))))))) :: []))), (Zpos (XO
+    (XO (XO (XI (XO (XO (XO (XI (XI (XI (XI (XI (XI (XI (XI
+    XH))))))))))))))))) :: ((((Zpos (XO (XO (XI (XO (XI (XO
+    XH))))))) :: ((Zpos (XI (XO (XO (XO (XO (XO XH))))))) :: ((Zpos (XO (XI
+    (XI (XI (XO (XO XH))))))) :: []))), (Zpos (XI (XO (XO (XI (XO (XO (XO (XI
+    (XI (XI (XI (XI (XI (XI (XI XH))))))))))))))))) :: ((((Zpos (XO (XO (XO
+    (XO (XI (XO XH))))))) :: ((Zpos (XI (XO (XI (XO (XO (XO
+    XH))))))) :: ((Zpos (XI (XO (XI (XO (XO (XO XH))))))) :: ((Zpos (XI (XI
+    (XO (XI (XO (XO XH))))))) :: [])))), (Zpos (XO (XI (XO (XI (XO (XO (XO
+    (XI (XI (XI (XI (XI (XI (XI (XI XH))))))))))))))))) :: ((((Zpos (XO (XO
+    (XI (XI (XO (XO XH))))))) :: ((Zpos (XI (XO (XI (XO (XO (XO
+    XH))))))) :: ((Zpos (XO (XI (XI (XI (XO (XO XH))))))) :: []))), (Zpos (XI
+    (XI (XO (XI (XO (XO (XO (XI (XI (XI (XI (XI (XI (XI (XI
+    XH))))))))))))))))) :: ((((Zpos (XI (XI (XO (XO (XI (XO
+    XH))))))) :: ((Zpos (XO (XO (XI (XO (XI (XO XH))))))) :: ((Zpos (XO (XI
+    (XO (XO (XI (XO XH))))))) :: ((Zpos (XO (XO (XI (XO (XO
+    XH)))))) :: [])))), (Zpos (XO (XO (XI (XI (XO (XO (XO (XI (XI (XI (XI (XI
+    (XI (XI (XI XH))))))))))))))))) :: ((((Zpos (XO (XI (XI (XO (XI (XO
+    XH))))))) :: ((Zpos (XI (XO (XO (XO (XO (XO XH))))))) :: ((Zpos (XO (XO
+    (XI (XI (XO (XO XH))))))) :: []))), (Zpos (XI (XO (XI (XI (XO (XO (XO (XI
+    (XI (XI (XI (XI (XI (XI (XI XH))))))))))))))))) :: ((((Zpos (XI (XO (XO
+    (XO (XO (XO XH))))))) :: ((Zpos (XI (XI (XO (XO (XI (XO
+    XH))))))) :: ((Zpos (XI (XI (XO (XO (XO (XO XH))))))) :: []))), (Zpos (XO
+    (XI (XI (XI (XO (XO (XO (XI (XI (XI (XI (XI (XI (XI (XI
+    XH))))))))))))))))) :: ((((Zpos (XI (XI (XO (XO (XO (XO
+    XH))))))) :: ((Zpos (XO (XO (XO (XI (XO (XO XH))))))) :: ((Zpos (XO (XI
+    (XO (XO (XI (XO XH))))))) :: ((Zpos (XO (XO (XI (XO (XO
+    XH)))))) :: [])))), (Zpos (XI (XI (XI (XI (XO (XO (XO (XI (XI (XI (XI (XI
+    (XI (XI (XI XH))))))))))))))))) :: ((((Zpos (XI (XO (XI (XO (XO (XO
+    XH))))))) :: ((Zpos (XI (XI (XI (XI (XO (XO XH))))))) :: ((Zpos (XO (XI
+    (XI (XO (XO (XO XH))))))) :: []))), (Zpos (XO (XO (XO (XO (XI (XO (XO (XI
+    (XI (XI (XI (XI (XI (XI (XI XH))))))))))))))))) :: ((((Zpos (XI (XI (XO
+    (XO (XO (XO XH))))))) :: ((Zpos (XI (XO (XO (XI (XO (XO
+    XH))))))) :: ((Zpos (XO (XI (XI (XI (XO (XO XH))))))) :: ((Zpos (XO (XO
+    (XI (XO (XI (XO XH))))))) :: [])))), (Zpos (XI (XO (XO (XO (XI (XO (XO
+    (XI (XI (XI (XI (XI (XI (XI (XI XH))))))))))))))))) :: ((((Zpos (XI (XI
+    (XO (XO (XO (XO XH))))))) :: ((Zpos (XI (XI (XO (XO (XI (XO
+    XH))))))) :: ((Zpos (XO (XI (XI (XI (XO (XO XH))))))) :: ((Zpos (XI (XI
+    (XI (XO (XO (XO XH))))))) :: [])))), (Zpos (XO (XI (XO (XO (XI (XO (XO
+    (XI (XI (XI (XI (XI (XI (XI (XI XH))))))))))))))))) :: ((((Zpos (XI (XI
+    (XO (XO (XO (XO XH))))))) :: ((Zpos (XO (XO (XI (XO (XO (XO
+    XH))))))) :: ((Zpos (XO (XI (XO (XO (XO (XO XH))))))) :: ((Zpos (XO (XO
+    (XI (XI (XO (XO XH))))))) :: [])))), (Zpos (XI (XI (XO (XO (XI (XO (XO
+    (XI (XI (XI (XI (XI (XI (XI (XI XH))))))))))))))))) :: ((((Zpos (XO (XI
+    (XI (XO (XO (XO XH))))))) :: ((Zpos (XI (XO (XO (XI (XO (XO
+    XH))))))) :: ((Zpos (XO (XO (XO (XI (XI (XO XH))))))) :: []))), (Zpos (XO
+    (XO (XI (XO (XI (XO (XO (XI (XI (XI (XI (XI (XI (XI (XI
+    XH))))))))))))))))) :: ((((Zpos (XO (XO (XO (XI (XO (XO
+    XH))))))) :: ((Zpos (XI (XO (XI (XO (XO (XO XH))))))) :: ((Zpos (XO (XO
+    (XO (XI (XI (XO XH))))))) :: ((Zpos (XO (XO (XI (XO (XO
+    XH)))))) :: [])))), (Zpos (XI (XO (XI (XO (XI (XO (XO (XI (XI (XI (XI (XI
+    (XI (XI (XI XH))))))))))))))))) :: ((((Zpos (XI (XI (XI (XI (XO (XO
+    XH))))))) :: ((Zpos (XI (XI (XO (XO (XO (XO XH))))))) :: ((Zpos (XO (XO
+    (XI (XO (XI (XO XH))))))) :: ((Zpos (XO (XO (XI (XO (XO
+    XH)))))) :: [])))), (Zpos (XO (XI (XI (XO (XI (XO (XO (XI (XI (XI (XI (XI
+    (XI (XI (XI XH))))))))))))))))) :: ((((Zpos (XI (XI (XO (XO (XI (XO
+    XH))))))) :: ((Zpos (XO (XO (XI (XO (XI (XO XH))))))) :: ((Zpos (XI (XO
+    (XO (XI (XO (XO XH))))))) :: ((Zpos (XI (XI (XO (XO (XO (XO
+    XH))))))) :: ((Zpos (XI (XI (XO (XI (XO (XO XH))))))) :: []))))), (Zpos
+    (XI (XI (XI (XO (XI (XO (XO (XI (XI (XI (XI (XI (XI (XI (XI
+    XH))))))))))))))))) :: ((((Zpos (XI (XI (XO (XO (XI (XO
+    XH))))))) :: ((Zpos (XO (XO (XI (XO (XI (XO XH))))))) :: ((Zpos (XO (XI
+    (XO (XO (XI (XO XH))))))) :: ((Zpos (XI (XO (XO (XI (XO (XO
+    XH))))))) :: ((Zpos (XI (XI (XI (XO (XO (XO XH))))))) :: []))))), (Zpos
+    (XO (XO (XO (XI (XI (XO (XO (XI (XI (XI (XI (XI (XI (XI (XI
+    XH))))))))))))))))) :: ((((Zpos (XI (XI (XI (XO (XO (XO
+    XH))))))) :: ((Zpos (XO (XI (XO (XO (XI (XO XH))))))) :: ((Zpos (XO (XO
+    (XI (XO (XO XH)))))) :: []))), (Zpos (XI (XO (XO (XI (XI (XO (XO (XI (XI
+    (XI (XI (XI (XI (XI (XI XH))))))))))))))))) :: ((((Zpos (XO (XO (XI (XI
+    (XO (XO XH))))))) :: ((Zpos (XI (XO (XI (XO (XO (XO XH))))))) :: ((Zpos
+    (XO (XI (XI (XO (XO (XO XH))))))) :: ((Zpos (XO (XO (XI (XO (XI (XO
+    XH))))))) :: ((Zpos (XO (XO (XI (XO (XO XH)))))) :: []))))), (Zpos (XO
+    (XI (XO (XI (XI (XO (XO (XI (XI (XI (XI (XI (XI (XI (XI
+    XH))))))))))))))))) :: ((((Zpos (XO (XI (XO (XO (XI (XO
+    XH))))))) :: ((Zpos (XI (XO (XO (XI (XO (XO XH))))))) :: ((Zpos (XI (XI
+    (XI (XO (XO (XO XH))))))) :: ((Zpos (XO (XO (XO (XI (XO (XO
+    XH))))))) :: ((Zpos (XO (XO (XI (XO (XI (XO XH))))))) :: ((Zpos (XO (XO
+    (XI (XO (XO XH)))))) :: [])))))), (Zpos (XI (XI (XO (XI (XI (XO (XO (XI
+    (XI (XI (XI (XI (XI (XI (XI XH))))))))))))))))) :: ((((Zpos (XI (XO (XI
+    (XI (XO (XO XH))))))) :: ((Zpos (XI (XO (XO (XI (XO (XO
+    XH))))))) :: ((Zpos (XO (XO (XI (XO (XO (XO XH))))))) :: ((Zpos (XO (XO
+    (XI (XO (XO XH)))))) :: [])))), (Zpos (XO (XO (XI (XI (XI (XO (XO (XI (XI
+    (XI (XI (XI (XI (XI (XI XH))))))))))))))))) :: ((((Zpos (XI (XO (XO (XI
+    (XO (XO XH))))))) :: ((Zpos (XO (XI (XI (XI (XO (XO XH))))))) :: ((Zpos
+    (XI (XI (XO (XO (XI (XO XH))))))) :: ((Zpos (XO (XO (XI (XO (XI (XO
+    XH))))))) :: ((Zpos (XO (XI (XO (XO (XI (XO XH))))))) :: []))))), (Zpos
+    (XI (XO (XI (XI (XI (XO (XO (XI (XI (XI (XI (XI (XI (XI (XI
+    XH))))))))))))))))) :: ((((Zpos (XO (XI (XI (XO (XI (XO
+    XH))))))) :: ((Zpos (XI (XO (XO (XO (XO (XO XH))))))) :: ((Zpos (XO (XI
+    (XO (XO (XI (XO XH))))))) :: ((Zpos (XO (XO (XO (XO (XI (XO
+    XH))))))) :: ((Zpos (XO (XO (XI (XO (XI (XO XH))))))) :: ((Zpos (XO (XI
+    (XO (XO (XI (XO XH))))))) :: [])))))), (Zpos (XO (XI (XI (XI (XI (XO (XO
+    (XI (XI (XI (XI (XI (XI (XI (XI XH))))))))))))))))) :: ((((Zpos (XO (XI
+    (XO (XO (XI (XO XH))))))) :: ((Zpos (XO (XI (XI (XI (XO (XO
+    XH))))))) :: ((Zpos (XO (XO (XI (XO (XO (XO XH))))))) :: []))), (Zpos (XI
+    (XI (XI (XI (XI (XO (XO (XI (XI (XI (XI (XI (XI (XI (XI
+    XH))))))))))))))))) :: ((((Zpos (XI (XO (XO (XI (XO (XO
+    XH))))))) :: ((Zpos (XO (XI (XI (XI (XO (XO XH))))))) :: ((Zpos (XI (XI
+    (XO (XI (XO (XO XH))))))) :: ((Zpos (XI (XO (XI (XO (XO (XO
+    XH))))))) :: ((Zpos (XI (XO (XO (XI (XI (XO XH))))))) :: ((Zpos (XO (XO
+    (XI (XO (XO XH)))))) :: [])))))), (Zpos (XO (XO (XO (XO (XO (XI (XO (XI
+    (XI (XI (XI (XI (XI (XI (XI XH))))))))))))))))) :: ((((Zpos (XI (XO (XO
+    (XI (XO (XO XH))))))) :: ((Zpos (XO (XI (XI (XI (XO (XO
+    XH))))))) :: ((Zpos (XO (XO (XO (XO (XI (XO XH))))))) :: ((Zpos (XI (XO
+    (XI (XO (XI (XO XH))))))) :: ((Zpos (XO (XO (XI (XO (XI (XO
+    XH))))))) :: []))))), (Zpos (XI (XO (XO (XO (XO (XI (XO (XI (XI (XI (XI
+    (XI (XI (XI (XI XH))))))))))))))))) :: ((((Zpos (XI (XI (XO (XO (XO (XO
+    XH))))))) :: ((Zpos (XI (XI (XO (XO (XI (XO XH))))))) :: ((Zpos (XO (XI
+    (XO (XO (XI (XO XH))))))) :: ((Zpos (XO (XO (XI (XI (XO (XO
+    XH))))))) :: ((Zpos (XI (XO (XO (XI (XO (XO XH))))))) :: ((Zpos (XO (XI
+    (XI (XI (XO (XO XH))))))) :: [])))))), (Zpos (XO (XI (XO (XO (XO (XI (XO
+    (XI (XI (XI (XI (XI (XI (XI (XI XH))))))))))))))))) :: ((((Zpos (XO (XO
+    (XO (XO (XI (XO XH))))))) :: ((Zpos (XI (XI (XI (XI (XO (XO
+    XH))))))) :: ((Zpos (XI (XO (XO (XI (XO (XO XH))))))) :: ((Zpos (XO (XI
+    (XI (XI (XO (XO XH))))))) :: ((Zpos (XO (XO (XI (XO (XI (XO
+    XH))))))) :: []))))), (Zpos (XI (XI (XO (XO (XO (XI (XO (XI (XI (XI (XI
+    (XI (XI (XI (XI XH))))))))))))))))) :: ((((Zpos (XI (XI (XO (XO (XI (XO
+    XH))))))) :: ((Zpos (XI (XI (XO (XO (XO (XO XH))))))) :: ((Zpos (XO (XI
+    (XO (XO (XI (XO XH))))))) :: ((Zpos (XI (XO (XI (XO (XO (XO
+    XH))))))) :: ((Zpos (XI (XO (XI (XO (XO (XO XH))))))) :: ((Zpos (XO (XI
+    (XI (XI (XO (XO XH))))))) :: [])))))), (Zpos (XO (XO (XI (XO (XO (XI (XO
+    (XI (XI (XI (XI (XI (XI (XI (XI XH))))))))))))))))) :: ((((Zpos (XO (XO
+    (XO (XO (XI (XO XH))))))) :: ((Zpos (XI (XI (XI (XI (XO (XO
+    XH))))))) :: ((Zpos (XI (XI (XO (XO (XI (XO XH))))))) :: []))), (Zpos (XI
+    (XO (XI (XO (XO (XI (XO (XI (XI (XI (XI (XI (XI (XI (XI
+    XH))))))))))))))))) :: ((((Zpos (XO (XO (XO (XO (XI (XO
+    XH))))))) :: ((Zpos (XO (XO (XI (XO (XI (XO XH))))))) :: ((Zpos (XO (XI
+    (XO (XO (XI (XO XH))))))) :: ((Zpos (XI (XO (XO (XI (XO (XO
+    XH))))))) :: ((Zpos (XI (XI (XI (XO (XO (XO XH))))))) :: []))))), (Zpos
+    (XO (XI (XI (XO (XO (XI (XO (XI (XI (XI (XI (XI (XI (XI (XI
+    XH))))))))))))))))) :: ((((Zpos (XO (XO (XI (XO (XO (XO
+    XH))))))) :: ((Zpos (XI (XI (XO (XO (XI (XO XH))))))) :: ((Zpos (XI (XI
+    (XO (XI (XO (XO XH))))))) :: ((Zpos (XO (XI (XI (XO (XO (XO
+    XH))))))) :: [])))), (Zpos (XI (XI (XI (XO (XO (XI (XO (XI (XI (XI (XI
+    (XI (XI (XI (XI XH))))))))))))))))) :: ((((Zpos (XI (XI (XO (XO (XO (XO
+    XH))))))) :: ((Zpos (XO (XI (XI (XO (XI (XO XH))))))) :: ((Zpos (XI (XO
+    (XO (XI (XO (XO XH))))))) :: []))), (Zpos (XO (XO (XO (XI (XO (XI (XO (XI
+    (XI (XI (XI (XI (XI (XI (XI XH))))))))))))))))) :: ((((Zpos (XI (XI (XO
+    (XO (XO (XO XH))))))) :: ((Zpos (XO (XI (XI (XO (XI (XO
+    XH))))))) :: ((Zpos (XI (XI (XO (XO (XI (XO XH))))))) :: []))), (Zpos (XI
+    (XO (XO (XI (XO (XI (XO (XI (XI (XI (XI (XI (XI (XI (XI
+    XH))))))))))))))))) :: ((((Zpos (XI (XO (XI (XI (XO (XO
+    XH))))))) :: ((Zpos (XI (XI (XO (XI (XO (XO XH))))))) :: ((Zpos (XI (XO
+    (XO (XI (XO (XO XH))))))) :: ((Zpos (XO (XO (XI (XO (XO
+    XH)))))) :: [])))), (Zpos (XI (XI (XO (XI (XO (XI (XO (XI (XI (XI (XI (XI
+    (XI (XI (XI XH))))))))))))))))) :: ((((Zpos (XI (XO (XI (XI (XO (XO
+    XH))))))) :: ((Zpos (XI (XI (XO (XI (XO (XO XH))))))) :: ((Zpos (XI (XI
+    (XO (XO (XI (XO XH))))))) :: ((Zpos (XO (XO (XI (XO (XO
+    XH)))))) :: [])))), (Zpos (XO (XO (XI (XI (XO (XI (XO (XI (XI (XI (XI (XI
+    (XI (XI (XI XH))))))))))))))))) :: ((((Zpos (XO (XO (XI (XI (XO (XO
+    XH))))))) :: ((Zpos (XI (XI (XI (XI (XO (XO XH))))))) :: ((Zpos (XI (XI
+    (XO (XO (XO (XO XH))))))) :: []))), (Zpos (XO (XI (XI (XI (XO (XI (XO (XI
+    (XI (XI (XI (XI (XI (XI (XI XH))))))))))))))))) :: ((((Zpos (XO (XO (XI
+    (XI (XO (XO XH))))))) :: ((Zpos (XI (XI (XI (XI (XO (XO
+    XH))))))) :: ((Zpos (XO (XI (XI (XO (XO (XO XH))))))) :: []))), (Zpos (XI
+    (XI (XI (XI (XO (XI (XO (XI (XI (XI (XI (XI (XI (XI (XI
+    XH))))))))))))))))) :: ((((Zpos (XI (XI (XO (XO (XI (XO
+    XH))))))) :: ((Zpos (XO (XO (XO (XO (XI (XO XH))))))) :: ((Zpos (XI (XO
+    (XO (XO (XO (XO XH))))))) :: ((Zpos (XI (XI (XO (XO (XO (XO
+    XH))))))) :: ((Zpos (XI (XO (XI (XO (XO (XO XH))))))) :: ((Zpos (XO (XO
+    (XI (XO (XO XH)))))) :: [])))))), (Zpos (XO (XO (XO (XO (XI (XI (XO (XI
+    (XI (XI (XI (XI (XI (XI (XI XH))))))))))))))))) :: ((((Zpos (XI (XI (XO
+    (XO (XI (XO XH))))))) :: ((Zpos (XO (XO (XI (XO (XI (XO
+    XH))))))) :: ((Zpos (XO (XI (XO (XO (XI (XO XH))))))) :: ((Zpos (XI (XO
+    (XO (XI (XO (XO XH))))))) :: ((Zpos (XO (XI (XI (XI (XO (XO
+    XH))))))) :: ((Zpos (XI (XI (XI (XO (XO (XO XH))))))) :: ((Zpos (XO (XO
+    (XI (XO (XO XH)))))) :: []))))))), (Zpos (XI (XO (XO (XO (XI (XI (XO (XI
+    (XI (XI (XI (XI (XI (XI (XI XH))))))))))))))))) :: ((((Zpos (XO (XO (XI
+    (XO (XO (XO XH))))))) :: ((Zpos (XI (XI (XO (XO (XI (XO
+    XH))))))) :: ((Zpos (XI (XI (XO (XI (XO (XO XH))))))) :: ((Zpos (XI (XO
+    (XO (XI (XO (XO XH))))))) :: ((Zpos (XO (XO (XI (XO (XO
+    XH)))))) :: []))))), (Zpos (XO (XI (XO (XO (XI (XI (XO (XI (XI (XI (XI
+    (XI (XI (XI (XI
+    XH))))))))))))))))) :: [])))))))))))))))))))))))))))))))))))))))))))))))))))))))))))))))))))))))))))))))))))))))))))))))))))))))))))))))))))))))))))))))))))))))))))))))))))))))
+
+(** val vocab_code : z list -> (z list * z) list -> z option **)
+
+let rec vocab_code k = function
+| [] -> None
+| p :: r ->
+  let (k', v) = p in if zeqb_list k k' then Some v else vocab_code k r
+
+(** val vocab_word : z -> (z list * z) list -> z list option **)
+
+let rec vocab_word v = function
+| [] -> None
+| p :: r -> let (k, v') = p in if Z.eqb v v' then Some k else vocab_word v r
+
+(** val code_of : z list -> z option **)
+
+let code_of k =
+  vocab_code k mo5_vocabulary
+
+(** val word_of : z -> z list option **)
+
+let word_of v =
+  vocab_word v mo5_vocabulary
+
+(** val u16 : z -> z list **)
+
+let u16 n0 =
+  (Z.modulo (Z.div n0 (Zpos (XO (XO (XO (XO (XO (XO (XO (XO XH))))))))))
+    (Zpos (XO (XO (XO (XO (XO (XO (XO (XO XH)))))))))) :: ((Z.modulo n0 (Zpos
+                                                             (XO (XO (XO (XO
+                                                             (XO (XO (XO (XO
+                                                             XH)))))))))) :: [])
+
+(** val code_bytes : z -> z list **)
+
+let code_bytes v =
+  if Z.ltb v (Zpos (XO (XO (XO (XO (XO (XO (XO (XO XH)))))))))
+  then v :: []
+  else u16 v
+
+(** val else_word : z list **)
+
+let else_word =
+  (Zpos (XI (XO (XI (XO (XO (XO XH))))))) :: ((Zpos (XO (XO (XI (XI (XO (XO
+    XH))))))) :: ((Zpos (XI (XI (XO (XO (XI (XO XH))))))) :: ((Zpos (XI (XO
+    (XI (XO (XO (XO XH))))))) :: [])))
+
+(** val word_bytes : z list -> z -> z list **)
+
+let word_bytes k v =
+  app
+    (if zeqb_list k else_word
+     then (Zpos (XO (XI (XO (XI (XI XH)))))) :: []
+     else []) (code_bytes v)
+
+(** val expand : nat -> z list -> z list option **)
+
+let rec expand fuel bs =
+  match fuel with
+  | O -> None
+  | S fuel' ->
+    (match bs with
+     | [] -> Some []
+     | b :: r ->
+       (match b with
+        | Zpos p ->
+          (match p with
+           | XI p0 ->
+             (match p0 with
+              | XI p1 ->
+                (match p1 with
+                 | XI p2 ->
+                   (match p2 with
+                    | XI p3 ->
+                      (match p3 with
+                       | XI p4 ->
+                         (match p4 with
+                          | XI p5 ->
+                            (match p5 with
+                             | XI p6 ->
+                               (match p6 with
+                                | XH ->
+                                  (match r with
+                                   | [] ->
+                                     if Z.ltb b (Zpos (XO (XO (XO (XO (XO (XO
+                                          (XO XH))))))))
+                                     then (match expand fuel' r with
+                                           | Some t -> Some (b :: t)
+                                           | None -> None)
+                                     else (match word_of b with
+                                           | Some w ->
+                                             (match expand fuel' r with
+                                              | Some t -> Some (app w t)
+                                              | None -> None)
+                                           | None -> None)
+                                   | x :: r0 ->
+                                     (match word_of
+                                              (Z.add (Zpos (XO (XO (XO (XO
+                                                (XO (XO (XO (XO (XI (XI (XI
+                                                (XI (XI (XI (XI
+                                                XH)))))))))))))))) x) with
+                                      | Some w ->
+                                        (match expand fuel' r0 with
+                                         | Some t -> Some (app w t)
+                                         | None -> None)
+                                      | None -> None))
+                                | _ ->
+                                  if Z.ltb b (Zpos (XO (XO (XO (XO (XO (XO
+                                       (XO XH))))))))
+                                  then (match expand fuel' r with
+                                        | Some t -> Some (b :: t)
+                                        | None -> None)
+                                  else (match word_of b with
+                                        | Some w ->
+                                          (match expand fuel' r with
+                                           | Some t -> Some (app w t)
+                                           | None -> None)
+                                        | None -> None))
+                             | _ ->
+                               if Z.ltb b (Zpos (XO (XO (XO (XO (XO (XO (XO
+                                    XH))))))))
+                               then (match expand fuel' r with
+                                     | Some t -> Some (b :: t)
+                                     | None -> None)
+                               else (match word_of b with
+                                     | Some w ->
+                                       (match expand fuel' r with
+                                        | Some t -> Some (app w t)
+                                        | None -> None)
+                                     | None -> None))
+                          | _ ->
+                            if Z.ltb b (Zpos (XO (XO (XO (XO (XO (XO (XO
+                                 XH))))))))
+                            then (match expand fuel' r with
+                                  | Some t -> Some (b :: t)
+                                  | None -> None)
+                            else (match word_of b with
+                                  | Some w ->
+                                    (match expand fuel' r with
+                                     | Some t -> Some (app w t)
+                                     | None -> None)
+                                  | None -> None))
+                       | _ ->
+                         if Z.ltb b (Zpos (XO (XO (XO (XO (XO (XO (XO
+                              XH))))))))
+                         then (match expand fuel' r with
+                               | Some t -> Some (b :: t)
+                               | None -> None)
+                         else (match word_of b with
+                               | Some w ->
+                                 (match expand fuel' r with
+                                  | Some t -> Some (app w t)
+                                  | None -> None)
+                               | None -> None))
+                    | _ ->
+                      if Z.ltb b (Zpos (XO (XO (XO (XO (XO (XO (XO XH))))))))
+                      then (match expand fuel' r with
+                            | Some t -> Some (b :: t)
+                            | None -> None)
+                      else (match word_of b with
+                            | Some w ->
+                              (match expand fuel' r with
+                               | Some t -> Some (app w t)
+                               | None -> None)
+                            | None -> None))
+                 | _ ->
+                   if Z.ltb b (Zpos (XO (XO (XO (XO (XO (XO (XO XH))))))))
+                   then (match expand fuel' r with
+                         | Some t -> Some (b :: t)
+                         | None -> None)
+                   else (match word_of b with
+                         | Some w ->
+                           (match expand fuel' r with
+                            | Some t -> Some (app w t)
+                            | None -> None)
+                         | None -> None))
+              | _ ->
+                if Z.ltb b (Zpos (XO (XO (XO (XO (XO (XO (XO XH))))))))
+                then (match expand fuel' r with
+                      | Some t -> Some (b :: t)
+                      | None -> None)
+                else (match word_of b with
+                      | Some w ->
+                        (match expand fuel' r with
+                         | Some t -> Some (app w t)
+                         | None -> None)
+                      | None -> None))
+           | XO p0 ->
+             (match p0 with
+              | XI p1 ->
+                (match p1 with
+                 | XO p2 ->
+                   (match p2 with
+                    | XI p3 ->
+                      (match p3 with
+                       | XI p4 ->
+                         (match p4 with
+                          | XH ->
+                            (match r with
+                             | [] ->
+                               if Z.ltb b (Zpos (XO (XO (XO (XO (XO (XO (XO
+                                    XH))))))))
+                               then (match expand fuel' r with
+                                     | Some t -> Some (b :: t)
+                                     | None -> None)
+                               else (match word_of b with
+                                     | Some w ->
+                                       (match expand fuel' r with
+                                        | Some t -> Some (app w t)
+                                        | None -> None)
+                                     | None -> None)
+                             | z0 :: r0 ->
+                               (match z0 with
+                                | Zpos p5 ->
+                                  (match p5 with
+                                   | XI p6 ->
+                                     (match p6 with
+                                      | XI p7 ->
+                                        (match p7 with
+                                         | XI p8 ->
+                                           (match p8 with
+                                            | XI p9 ->
+                                              (match p9 with
+                                               | XO p10 ->
+                                                 (match p10 with
+                                                  | XO p11 ->
+                                                    (match p11 with
+                                                     | XO p12 ->
+                                                       (match p12 with
+                                                        | XH ->
+                                                          (match expand fuel'
+                                                                   r0 with
+                                                           | Some t ->
+                                                             Some
+                                                               (app else_word
+                                                                 t)
+                                                           | None -> None)
+                                                        | _ ->
+                                                          if Z.ltb b (Zpos
+                                                               (XO (XO (XO
+                                                               (XO (XO (XO
+                                                               (XO XH))))))))
+                                                          then (match 
+                                                                expand fuel' r with
+                                                                | Some t ->
+                                                                  Some
+                                                                    (b :: t)
+                                                                | None -> None)
+                                                          else (match 
+                                                                word_of b with
+                                                                | Some w ->
+                                                                  (match 
+                                                                   expand
+                                                                    fuel' r with
+                                                                   | Some t ->
+                                                                    Some
+                                                                    (app w t)
+                                                                   | None ->
+                                                                    None)
+                                                                | None -> None))
+                                                     | _ ->
+                                                       if Z.ltb b (Zpos (XO
+                                                            (XO (XO (XO (XO
+                                                            (XO (XO XH))))))))
+                                                       then (match expand
+                                                                    fuel' r with
+                                                             | Some t ->
+                                                               Some (b :: t)
+                                                             | None -> None)
+                                                       else (match word_of b with
+                                                             | Some w ->
+                                                               (match 
+                                                                expand fuel' r with
+                                                                | Some t ->
+                                                                  Some
+                                                                    (app w t)
+                                                                | None -> None)
+                                                             | None -> None))
+                                                  | _ ->
+                                                    if Z.ltb b (Zpos (XO (XO
+                                                         (XO (XO (XO (XO (XO
+                                                         XH))))))))
+                                                    then (match expand fuel' r with
+                                                          | Some t ->
+                                                            Some (b :: t)
+                                                          | None -> None)
+                                                    else (match word_of b with
+                                                          | Some w ->
+                                                            (match expand
+                                                                    fuel' r with
+                                                             | Some t ->
+                                                               Some (app w t)
+                                                             | None -> None)
+                                                          | None -> None))
+                                               | _ ->
+                                                 if Z.ltb b (Zpos (XO (XO (XO
+                                                      (XO (XO (XO (XO
+                                                      XH))))))))
+                                                 then (match expand fuel' r with
+                                                       | Some t ->
+                                                         Some (b :: t)
+                                                       | None -> None)
+                                                 else (match word_of b with
+                                                       | Some w ->
+                                                         (match expand fuel' r with
+                                                          | Some t ->
+                                                            Some (app w t)
+                                                          | None -> None)
+                                                       | None -> None))
+                                            | _ ->
+                                              if Z.ltb b (Zpos (XO (XO (XO
+                                                   (XO (XO (XO (XO XH))))))))
+                                              then (match expand fuel' r with
+                                                    | Some t -> Some (b :: t)
+                                                    | None -> None)
+                                              else (match word_of b with
+                                                    | Some w ->
+                                                      (match expand fuel' r with
+                                                       | Some t ->
+                                                         Some (app w t)
+                                                       | None -> None)
+                                                    | None -> None))
+                                         | _ ->
+                                           if Z.ltb b (Zpos (XO (XO (XO (XO
+                                                (XO (XO (XO XH))))))))
+                                           then (match expand fuel' r with
+                                                 | Some t -> Some (b :: t)
+                                                 | None -> None)
+                                           else (match word_of b with
+                                                 | Some w ->
+                                                   (match expand fuel' r with
+                                                    | Some t -> Some (app w t)
+                                                    | None -> None)
+                                                 | None -> None))
+                                      | _ ->
+                                        if Z.ltb b (Zpos (XO (XO (XO (XO (XO
+                                             (XO (XO XH))))))))
+                                        then (match expand fuel' r with
+                                              | Some t -> Some (b :: t)
+                                              | None -> None)
+                                        else (match word_of b with
+                                              | Some w ->
+                                                (match expand fuel' r with
+                                                 | Some t -> Some (app w t)
+                                                 | None -> None)
+                                              | None -> None))
+                                   | _ ->
+                                     if Z.ltb b (Zpos (XO (XO (XO (XO (XO (XO
+                                          (XO XH))))))))
+                                     then (match expand fuel' r with
+                                           | Some t -> Some (b :: t)
+                                           | None -> None)
+                                     else (match word_of b with
+                                           | Some w ->
+                                             (match expand fuel' r with
+                                              | Some t -> Some (app w t)
+                                              | None -> None)
+                                           | None -> None))
+                                | _ ->
+                                  if Z.ltb b (Zpos (XO (XO (XO (XO (XO (XO
+                                       (XO XH))))))))
+                                  then (match expand fuel' r with
+                                        | Some t -> Some (b :: t)
+                                        | None -> None)
+                                  else (match word_of b with
+                                        | Some w ->
+                                          (match expand fuel' r with
+                                           | Some t -> Some (app w t)
+                                           | None -> None)
+                                        | None -> None)))
+                          | _ ->
+                            if Z.ltb b (Zpos (XO (XO (XO (XO (XO (XO (XO
+                                 XH))))))))
+                            then (match expand fuel' r with
+                                  | Some t -> Some (b :: t)
+                                  | None -> None)
+                            else (match word_of b with
+                                  | Some w ->
+                                    (match expand fuel' r with
+                                     | Some t -> Some (app w t)
+                                     | None -> None)
+                                  | None -> None))
+                       | _ ->
+                         if Z.ltb b (Zpos (XO (XO (XO (XO (XO (XO (XO
+                              XH))))))))
+                         then (match expand fuel' r with
+                               | Some t -> Some (b :: t)
+                               | None -> None)
+                         else (match word_of b with
+                               | Some w ->
+                                 (match expand fuel' r with
+                                  | Some t -> Some (app w t)
+                                  | None -> None)
+                               | None -> None))
+                    | _ ->
+                      if Z.ltb b (Zpos (XO (XO (XO (XO (XO (XO (XO XH))))))))
+                      then (match expand fuel' r with
+                            | Some t -> Some (b :: t)
+                            | None -> None)
+                      else (match word_of b with
+                            | Some w ->
+                              (match expand fuel' r with
+                               | Some t -> Some (app w t)
+                               | None -> None)
+                            | None -> None))
+                 | _ ->
+                   if Z.ltb b (Zpos (XO (XO (XO (XO (XO (XO (XO XH))))))))
+                   then (match expand fuel' r with
+                         | Some t -> Some (b :: t)
+                         | None -> None)
+                   else (match word_of b with
+                         | Some w ->
+                           (match expand fuel' r with
+                            | Some t -> Some (app w t)
+                            | None -> None)
+                         | None -> None))
+              | _ ->
+                if Z.ltb b (Zpos (XO (XO (XO (XO (XO (XO (XO XH))))))))
+                then (match expand fuel' r with
+                      | Some t -> Some (b :: t)
+                      | None -> None)
+                else (match word_of b with
+                      | Some w ->
+                        (match expand fuel' r with
+                         | Some t -> Some (app w t)
+                         | None -> None)
+                      | None -> None))
+           | XH ->
+             if Z.ltb b (Zpos (XO (XO (XO (XO (XO (XO (XO XH))))))))
+             then (match expand fuel' r with
+                   | Some t -> Some (b :: t)
+                   | None -> None)
+             else (match word_of b with
+                   | Some w ->
+                     (match expand fuel' r with
+                      | Some t -> Some (app w t)
+                      | None -> None)
+                   | None -> None))
+        | _ ->
+          if Z.ltb b (Zpos (XO (XO (XO (XO (XO (XO (XO XH))))))))
+          then (match expand fuel' r with
+                | Some t -> Some (b :: t)
+                | None -> None)
+          else (match word_of b with
+                | Some w ->
+                  (match expand fuel' r with
+                   | Some t -> Some (app w t)
+                   | None -> None)
+                | None -> None)))
+
+(** val mo5_base : z **)
+
+let mo5_base =
+  Zpos (XO (XO (XI (XO (XO (XI (XO (XI (XI (XO (XI (XO (XO XH)))))))))))))
+
+(** val split_at_zero : z list -> z list -> (z list * z list) option **)
+
+let rec split_at_zero bs acc =
+  match bs with
+  | [] -> None
+  | b :: r ->
+    (match b with
+     | Z0 -> Some ((rev acc), r)
+     | _ -> split_at_zero r (b :: acc))
+
+(** val records : nat -> z -> z list -> (z * z list) list option **)
+
+let rec records fuel addr bs =
+  match fuel with
+  | O -> None
+  | S fuel' ->
+    (match bs with
+     | [] -> None
+     | lh :: l ->
+       (match lh with
+        | Z0 ->
+          (match l with
+           | [] -> None
+           | ll :: l0 ->
+             (match ll with
+              | Z0 ->
+                (match l0 with
+                 | [] -> Some []
+                 | nh :: l1 ->
+                   (match l1 with
+                    | [] -> None
+                    | nl :: r ->
+                      (match split_at_zero r [] with
+                       | Some p ->
+                         let (text, rest) = p in
+                         let next =
+                           Z.add (Z.add addr (zlen text)) (Zpos (XI (XO XH)))
+                         in
+                         if Z.eqb
+                              (Z.add
+                                (Z.mul lh (Zpos (XO (XO (XO (XO (XO (XO (XO
+                                  (XO XH)))))))))) ll)
+                              (Z.modulo next (Zpos (XO (XO (XO (XO (XO (XO
+                                (XO (XO (XO (XO (XO (XO (XO (XO (XO (XO
+                                XH))))))))))))))))))
+                         then (match records fuel' next rest with
+                               | Some recs ->
+                                 Some
+                                   (((Z.add
+                                       (Z.mul nh (Zpos (XO (XO (XO (XO (XO
+                                         (XO (XO (XO XH)))))))))) nl),
+                                   text) :: recs)
+                               | None -> None)
+                         else None
+                       | None -> None)))
+              | _ ->
+                (match l0 with
+                 | [] -> None
+                 | nh :: l1 ->
+                   (match l1 with
+                    | [] -> None
+                    | nl :: r ->
+                      (match split_at_zero r [] with
+                       | Some p ->
+                         let (text, rest) = p in
+                         let next =
+                           Z.add (Z.add addr (zlen text)) (Zpos (XI (XO XH)))
+                         in
+                         if Z.eqb
+                              (Z.add
+                                (Z.mul lh (Zpos (XO (XO (XO (XO (XO (XO (XO
+                                  (XO XH)))))))))) ll)
+                              (Z.modulo next (Zpos (XO (XO (XO (XO (XO (XO
+                                (XO (XO (XO (XO (XO (XO (XO (XO (XO (XO
+                                XH))))))))))))))))))
+                         then (match records fuel' next rest with
+                               | Some recs ->
+                                 Some
+                                   (((Z.add
+                                       (Z.mul nh (Zpos (XO (XO (XO (XO (XO
+                                         (XO (XO (XO XH)))))))))) nl),
+                                   text) :: recs)
+                               | None -> None)
+                         else None
+                       | None -> None)))))
+        | _ ->
+          (match l with
+           | [] -> None
+           | ll :: l0 ->
+             (match l0 with
+              | [] -> None
+              | nh :: l1 ->
+                (match l1 with
+                 | [] -> None
+                 | nl :: r ->
+                   (match split_at_zero r [] with
+                    | Some p ->
+                      let (text, rest) = p in
+                      let next =
+                        Z.add (Z.add addr (zlen text)) (Zpos (XI (XO XH)))
+                      in
+                      if Z.eqb
+                           (Z.add
+                             (Z.mul lh (Zpos (XO (XO (XO (XO (XO (XO (XO (XO
+                               XH)))))))))) ll)
+                           (Z.modulo next (Zpos (XO (XO (XO (XO (XO (XO (XO
+                             (XO (XO (XO (XO (XO (XO (XO (XO (XO
+                             XH))))))))))))))))))
+                      then (match records fuel' next rest with
+                            | Some recs ->
+                              Some
+                                (((Z.add
+                                    (Z.mul nh (Zpos (XO (XO (XO (XO (XO (XO
+                                      (XO (XO XH)))))))))) nl), text) :: recs)
+                            | None -> None)
+                      else None
+                    | None -> None))))))
+
+(** val program_records : z list -> (z * z list) list option **)
+
+let program_records img = match img with
+| [] -> None
+| z0 :: l ->
+  (match z0 with
+   | Zpos p ->
+     (match p with
+      | XI p0 ->
+        (match p0 with
+         | XI p1 ->
+           (match p1 with
+            | XI p2 ->
+              (match p2 with
+               | XI p3 ->
+                 (match p3 with
+                  | XI p4 ->
+                    (match p4 with
+                     | XI p5 ->
+                       (match p5 with
+                        | XI p6 ->
+                          (match p6 with
+                           | XH ->
+                             (match l with
+                              | [] -> None
+                              | lh :: l0 ->
+                                (match l0 with
+                                 | [] -> None
+                                 | ll :: body ->
+                                   if (&&)
+                                        (Z.eqb
+                                          (Z.add
+                                            (Z.mul lh (Zpos (XO (XO (XO (XO
+                                              (XO (XO (XO (XO XH)))))))))) ll)
+                                          (Z.modulo (zlen body) (Zpos (XO (XO
+                                            (XO (XO (XO (XO (XO (XO (XO (XO
+                                            (XO (XO (XO (XO (XO (XO
+                                            XH))))))))))))))))))) (bytesb img)
+                                   then records (S (length body)) mo5_base
+                                          body
+                                   else None))
+                           | _ -> None)
+                        | _ -> None)
+                     | _ -> None)
+                  | _ -> None)
+               | _ -> None)
+            | _ -> None)
+         | _ -> None)
+      | _ -> None)
+   | _ -> None)
+
+(** val expand_all : (z * z list) list -> (z * z list) list option **)
+
+let rec expand_all = function
+| [] -> Some []
+| p :: r ->
+  let (n0, bs) = p in
+  (match expand (S (length bs)) bs with
+   | Some t ->
+     (match expand_all r with
+      | Some rs -> Some ((n0, t) :: rs)
+      | None -> None)
+   | None -> None)
+
+(** val detok : z list -> (z * z list) list option **)
+
+let detok img =
+  match program_records img with
+  | Some recs -> expand_all recs
+  | None -> None
+
+(** val upper_outside_strings : bool -> z list -> z list **)
+
+let rec upper_outside_strings in_lit = function
+| [] -> []
+| c :: r ->
+  if Z.eqb c (Zpos (XO (XI (XO (XO (XO XH))))))
+  then c :: (upper_outside_strings (negb in_lit) r)
+  else (if in_lit then c else upper_char c) :: (upper_outside_strings in_lit
+                                                 r)
+
+(** val line_number : z list -> z **)
+
+let line_number l =
+  undec (take_digits l)
+
+(** val line_text : z list -> z list **)
+
+let line_text l =
+  let r = skipn (length (take_digits l)) l in
+  let r0 =
+    match rev r with
+    | [] -> r
+    | z0 :: t ->
+      (match z0 with
+       | Zpos p ->
+         (match p with
+          | XO p0 ->
+            (match p0 with
+             | XI p1 ->
+               (match p1 with
+                | XO p2 -> (match p2 with
+                            | XH -> rev t
+                            | _ -> r)
+                | _ -> r)
+             | _ -> r)
+          | _ -> r)
+       | _ -> r)
+  in
+  (match r0 with
+   | [] -> r0
+   | z0 :: t ->
+     (match z0 with
+      | Zpos p ->
+        (match p with
+         | XO p0 ->
+           (match p0 with
+            | XO p1 ->
+              (match p1 with
+               | XO p2 ->
+                 (match p2 with
+                  | XO p3 ->
+                    (match p3 with
+                     | XO p4 -> (match p4 with
+                                 | XH -> t
+                                 | _ -> r0)
+                     | _ -> r0)
+                  | _ -> r0)
+               | _ -> r0)
+            | _ -> r0)
+         | _ -> r0)
+      | _ -> r0))
+
+type lexeme =
+| LKeyword of z list
+| LText of z list
+| LString of z list * bool
+| LDelim of z
+
+(** val lex_source : lexeme -> z list **)
+
+let lex_source = function
+| LKeyword w -> w
+| LText s -> s
+| LString (s, closed) ->
+  app ((Zpos (XO (XI (XO (XO (XO XH)))))) :: [])
+    (app s (if closed then (Zpos (XO (XI (XO (XO (XO XH)))))) :: [] else []))
+| LDelim c -> c :: []
+
+(** val lex_encode : lexeme -> z list **)
+
+let lex_encode = function
+| LKeyword w ->
+  (match code_of (upper_ascii w) with
+   | Some v -> word_bytes (upper_ascii w) v
+   | None -> [])
+| LText s -> upper_ascii s
+| LString (s, closed) ->
+  app ((Zpos (XO (XI (XO (XO (XO XH)))))) :: [])
+    (app s (if closed then (Zpos (XO (XI (XO (XO (XO XH)))))) :: [] else []))
+| LDelim c ->
+  (match code_of (c :: []) with
+   | Some v -> code_bytes v
+   | None -> c :: [])
+
+(** val ref_encode : lexeme list -> z list **)
+
+let ref_encode lx =
+  flat_map lex_encode lx
+
+(** val ref_source : lexeme list -> z list **)
+
+let ref_source lx =
+  flat_map lex_source lx
